@@ -2380,7 +2380,7 @@ Lemma reach_Inv mx s : 0 <= mx -> reach mx s -> Inv mx s.
 Proof.
   intros Hm R. induction R as [|s e o s' R IH St].
   - split; [|split; [apply Own_init|reflexivity]].
-    split; [|intros _]; unfold InvA, InvB, opening, lag, nbroken; cbn; rewrite ?cnt_nil, ?zlen_nil; lia.
+    split; [|intros _]; unfold InvA, InvB, opening, lag, nbroken; cbn; rewrite ?cnt_nil; unfold zlen; cbn; lia.
   - destruct IH as (I1 & O & M). split; [|split].
     + eapply step_Inv1; [apply Own_discs_open, O|exact I1|exact St].
     + eapply step_Own; eauto.
@@ -2450,21 +2450,37 @@ Qed.
 
 (* ---- C15: a connection is lent to at most one holder, is open and in_use in exactly one block,
         not on any stack, not being closed *)
+Lemma inuse_le_keys c cs : zocc c (inuse_l cs) <= zocc c (map fst cs).
+Proof.
+  unfold inuse_l. induction cs as [|[k v] cs IH]; cbn [filter snd map fst]; [lia|].
+  destruct v; cbn [map fst]; rewrite ?zocc_cons; destruct (Ndec k c); lia.
+Qed.
 Lemma inuse_lookup c cs : 1 <= zocc c (inuse_l cs) -> zocc c (map fst cs) <= 1 -> alookup c cs = Some true.
 Proof.
-  induction cs as [|[k v] cs IH]; unfold inuse_l; cbn [filter snd map fst alookup]; [rewrite zocc_nil; lia|].
+  induction cs as [|[k v] cs IH]; [unfold inuse_l; cbn; rewrite zocc_nil; lia|].
+  cbn [alookup map fst]. rewrite zocc_cons. intros H1 H2.
+  pose proof (inuse_le_keys c cs) as L.
   destruct (c =? k)%N eqn:E.
-  - apply N.eqb_eq in E; subst. rewrite zocc_cons. destruct (Ndec k k); [|contradiction].
-    destruct v; [reflexivity|]. intros H1 H2.
-    assert (1 <= zocc k (map fst cs)).
-    { clear -H1. induction cs as [|[k' v'] cs IH]; cbn [filter snd map fst] in *; [rewrite zocc_nil in H1; lia|].
-      rewrite zocc_cons. destruct v'; cbn [map fst] in H1; [rewrite zocc_cons in H1; destruct (Ndec k' k); lia|].
-      specialize (IH H1). destruct (Ndec k' k); lia. }
-    lia.
-  - apply N.eqb_neq in E. rewrite zocc_cons. destruct (Ndec k c); [subst; contradiction|].
-    intros H1 H2. apply IH; [|lia]. destruct v; cbn [map fst] in H1; [rewrite zocc_cons in H1; destruct (Ndec k c); [contradiction|]|]; exact H1 || lia.
+  - apply N.eqb_eq in E; subst. destruct (Ndec k k); [|contradiction].
+    destruct v; [reflexivity|]. unfold inuse_l in *. cbn [filter snd] in H1. lia.
+  - apply N.eqb_neq in E. destruct (Ndec k c); [subst; contradiction|].
+    apply IH; [|lia]. unfold inuse_l in *. cbn [filter snd] in H1. destruct v; [|exact H1].
+    cbn [map fst] in H1. rewrite zocc_cons in H1. destruct (Ndec k c); [contradiction|lia].
 Qed.
 
+Lemma sumZ_le w1 w2 bs : (forall b, w1 b <= w2 b) -> sumZ w1 bs <= sumZ w2 bs.
+Proof. intros H. induction bs as [|b r IH]; cbn [sumZ]; [lia|]. specialize (H b). lia. Qed.
+Lemma sumZ_unique_pos w bs b b' :
+  (forall x, 0 <= w x) -> In b bs -> In b' bs -> 1 <= w b -> 1 <= w b' -> sumZ w bs <= 1 -> b' = b.
+Proof.
+  intros Hn. induction bs as [|b0 r IH]; intros Hb Hb' W W' S; [destruct Hb|].
+  cbn [sumZ] in S. assert (0 <= sumZ w r) by (apply sumZ_nonneg; intros; apply Hn).
+  pose proof (Hn b0).
+  destruct Hb as [->|Hb], Hb' as [->|Hb']; auto.
+  - pose proof (sumZ_In_le w r b' (fun x _ => Hn x) Hb'). lia.
+  - pose proof (sumZ_In_le w r b (fun x _ => Hn x) Hb). lia.
+  - apply IH; auto. lia.
+Qed.
 Lemma sumZ_pos_In w bs : (forall b, In b bs -> 0 <= w b) -> 1 <= sumZ w bs -> exists b, In b bs /\ 1 <= w b.
 Proof.
   induction bs as [|b r IH]; cbn [sumZ]; intros Hn H; [lia|].
@@ -2486,10 +2502,7 @@ Proof.
   { intros c. pose proof (own_open _ _ _ _ O c) as Op. rewrite zocc_nil in Op. split; [lia|].
     unfold zocc; pose proof (proj1 (occ_NoDup Ndec _) (own_nodup _ _ _ _ O) c); lia. }
   assert (IK : forall c, sumZ (fun b => zocc c (inuse_keys b)) (blocks s) <= sumZ (fun b => zocc c (keys b)) (blocks s)).
-  { intros c. induction (blocks s) as [|b r IH]; cbn [sumZ]; [lia|].
-    assert (zocc c (inuse_keys b) <= zocc c (keys b)); [|lia].
-    unfold inuse_keys, keys, inuse_l. induction (b_conns b) as [|[k v] cs IHc]; cbn [filter snd map fst]; [lia|].
-    destruct v; cbn [map fst]; rewrite ?zocc_cons; destruct (Ndec k c); lia. }
+  { intros c. apply sumZ_le. intros b. exact (inuse_le_keys c (b_conns b)). }
   split.
   - apply zocc_NoDup. intros c. rewrite (own_held _ _ _ _ O c). destruct (KS c). specialize (IK c).
     pose proof (zocc_nonneg c (limbo s)). lia.
@@ -2507,16 +2520,1200 @@ Proof.
       * apply inuse_lookup; [exact Hw|unfold keys in *; lia].
       * apply zocc_notin. lia.
       * intros b' Hb' Hk. apply zocc_In in Hk.
-        destruct (in_dec (fun x y : blk => bdec (b_id x) (b_id y)) b' [b]) as [_|_]. all: try idtac.
-        assert (ND := own_ids _ _ _ _ O).
-        (* two different blocks both holding c would count it twice *)
-        clear -Hb Hb' Hk F1 F2 Hw K1 K2 ND.
-        pose proof (zocc_nonneg c (limbo s)).
-        induction (blocks s) as [|b0 r IH]; [destruct Hb|].
-        cbn [sumZ map] in *. inversion ND; subst.
-        assert (Hn : 0 <= sumZ (fun b => zocc c (keys b)) r) by (apply sumZ_nonneg; intros; apply zocc_nonneg).
-        destruct Hb as [->|Hb], Hb' as [->|Hb']; auto.
-        -- pose proof (sumZ_In_le (fun b => zocc c (keys b)) r b' (fun b _ => zocc_nonneg c _) Hb'). cbn beta in *. lia.
-        -- pose proof (sumZ_In_le (fun b => zocc c (keys b)) r b (fun b _ => zocc_nonneg c _) Hb). cbn beta in *. lia.
-        -- apply IH; auto. pose proof (zocc_nonneg c (keys b0)). lia.
+        apply (sumZ_unique_pos (fun b => zocc c (keys b)) (blocks s)); auto.
+        -- intros; apply zocc_nonneg.
+        -- cbn beta. pose proof (zocc_nonneg c (b_stack b)). lia.
+        -- lia.
+Qed.
+
+(* ---- C15: the connections handed back as broken that the capacity bound discounts are
+        distinct open connections *)
+Definition kont_broken (k : kont) : list (bid * conn) :=
+  match k with KDiscStart i c _ true => [(i, c)] | _ => [] end.
+Definition infl_broken (e : N * (conn * after_disc)) : list conn :=
+  match snd (snd e) with ADDiscard _ true => [fst (snd e)] | _ => [] end.
+Definition broken_conns (s : pool) : list conn :=
+  map snd (flat_map kont_broken s.(ready)) ++ flat_map infl_broken s.(infl_disc).
+
+Lemma zlen_map {A B} (f : A -> B) l : zlen (map f l) = zlen l.
+Proof. unfold zlen. rewrite map_length. reflexivity. Qed.
+Lemma broken_conns_len s : zlen (broken_conns s) = nbroken s.
+Proof.
+  unfold broken_conns, nbroken. rewrite zlen_app, zlen_map. f_equal.
+  - induction (ready s) as [|k r IH]; [reflexivity|]. cbn [flat_map]. rewrite zlen_app, cnt_cons, IH.
+    destruct k as [t d|t i ok|i|cid i res nodb|f c0 to|i c0 p br|did c0 a ok|t d|t i acc ok|t|t]; cbn [kont_broken is_bstart b2z]; try destruct br; cbn [b2z]; rewrite ?zlen_cons, ?zlen_nil; lia.
+  - induction (infl_disc s) as [|e r IH]; [reflexivity|]. cbn [flat_map filter]. rewrite zlen_app, IH.
+    unfold infl_broken, is_binfl. destruct (snd (snd e)) as [to|p [|]]; rewrite ?zlen_cons, ?zlen_nil; lia.
+Qed.
+
+Lemma sumZ_id_one j bs : NoDup (map b_id bs) -> In j (map b_id bs) ->
+  sumZ (fun b => b2z (bid_eqb j (b_id b))) bs = 1.
+Proof.
+  induction bs as [|b r IH]; cbn [map In sumZ]; [tauto|]. intros ND Hin. inversion ND; subst.
+  destruct (bid_eqb j (b_id b)) eqn:E; cbn [b2z].
+  - apply bid_eqb_eq in E; subst j.
+    assert (sumZ (fun b0 => b2z (bid_eqb (b_id b) (b_id b0))) r = 0); [|lia].
+    clear -H1. induction r as [|b1 r IH]; cbn [sumZ]; [reflexivity|].
+    destruct (bid_eqb (b_id b) (b_id b1)) eqn:E1.
+    + apply bid_eqb_eq in E1. exfalso. apply H1. rewrite E1. left; reflexivity.
+    + cbn [b2z]. rewrite IH; [lia|]. intros Hin; apply H1; right; exact Hin.
+  - apply bid_eqb_neq in E. destruct Hin as [Hin|Hin]; [congruence|]. rewrite (IH H2 Hin). lia.
+Qed.
+
+Lemma pairs_by_block c (l : list (bid * conn)) bs :
+  NoDup (map b_id bs) -> (forall p, In p l -> In (fst p) (map b_id bs)) ->
+  zocc c (map snd l) = sumZ (fun b => zoccP (b_id b, c) l) bs.
+Proof.
+  intros ND. induction l as [|[j c'] l IH]; intros Hall.
+  - cbn [map]. rewrite zocc_nil. induction bs; cbn [sumZ]; [reflexivity|]. rewrite zoccP_nil.
+    inversion ND; subst. rewrite <- IHbs; [lia|assumption|intros p []].
+  - cbn [map snd]. rewrite zocc_cons, IH; [|intros p Hp; apply Hall; right; exact Hp].
+    assert (Hj : In j (map b_id bs)) by (apply (Hall (j, c')); left; reflexivity).
+    pose proof (sumZ_id_one j bs ND Hj) as One.
+    assert (E : sumZ (fun b => zoccP (b_id b, c) ((j, c') :: l)) bs =
+                (if Ndec c' c then 1 else 0) * sumZ (fun b => b2z (bid_eqb j (b_id b))) bs
+                + sumZ (fun b => zoccP (b_id b, c) l) bs).
+    { clear. induction bs as [|b r IHr]; cbn [sumZ]; [lia|]. rewrite IHr, zoccP_cons.
+      destruct (pdec (j, c') (b_id b, c)) as [e|n], (Ndec c' c) as [e'|n'], (bid_eqb j (b_id b)) eqn:Eb; cbn [b2z]; try lia.
+      - inversion e. subst. rewrite bid_eqb_refl in Eb. discriminate.
+      - inversion e. contradiction.
+      - inversion e. contradiction.
+      - apply bid_eqb_eq in Eb. subst. contradiction. }
+    rewrite E, One. lia.
+Qed.
+
+Lemma infl_broken_le c l :
+  zocc c (flat_map infl_broken l) <= zocc c (map (fun e : N * (N * after_disc) => fst (snd e)) l).
+Proof.
+  induction l as [|e r IH]; cbn [flat_map map]; [lia|]. rewrite zocc_app, zocc_cons.
+  unfold infl_broken at 1. destruct (snd (snd e)) as [to|p [|]]; rewrite ?zocc_cons, ?zocc_nil; destruct (Ndec (fst (snd e)) c); lia.
+Qed.
+Lemma kont_broken_le p l : zoccP p (flat_map kont_broken l) <= zoccP p (kres l).
+Proof.
+  unfold kres. induction l as [|k r IH]; cbn [flat_map]; [lia|].
+  rewrite !zoccP_app. assert (zoccP p (kont_broken k) <= zoccP p (kont_res k)); [|lia].
+  destruct k as [t d|t i ok|i|cid i res nodb|f c0 to|i c0 p0 br|did c0 a ok|t d|t i acc ok|t|t]; cbn [kont_broken kont_res]; rewrite ?zoccP_nil; try apply zoccP_nonneg; try lia.
+  destruct br; rewrite ?zoccP_nil; [lia|apply zoccP_nonneg].
+Qed.
+Lemma p_broken_are_open mx s : 0 <= mx -> reach mx s ->
+  zlen (broken_conns s) = nbroken s /\ NoDup (broken_conns s) /\ incl (broken_conns s) s.(g_open).
+Proof.
+  intros Hm R. destruct (reach_Inv _ _ Hm R) as (_ & O & _).
+  split; [apply broken_conns_len|].
+  assert (Sub : forall c, zocc c (broken_conns s) <= zocc c (g_open s)).
+  { intros c. unfold broken_conns. rewrite zocc_app.
+    pose proof (own_open _ _ _ _ O c) as Op. unfold limbo in Op. rewrite zocc_app, zocc_nil in Op.
+    pose proof (zocc_nonneg c (flat_map kont_limbo (ready s))).
+    pose proof (infl_broken_le c (infl_disc s)) as I.
+    assert (K : zocc c (map snd (flat_map kont_broken (ready s))) <= sumZ (fun b => zocc c (keys b)) (blocks s)).
+    { set (l := flat_map kont_broken (ready s)).
+      assert (Le : forall p, zoccP p l <= zoccP p (kres (ready s))) by (intros p; apply kont_broken_le).
+      assert (Bd : forall j c0, zoccP (j, c0) l <= sumZ (at_id j (fun b => zocc c0 (keys b))) (blocks s)).
+      { intros j c0. specialize (Le (j, c0)). pose proof (own_blk _ _ _ _ O j c0) as B. rewrite zoccP_nil in B.
+        assert (sumZ (at_id j (slack c0)) (blocks s) <= sumZ (at_id j (fun b => zocc c0 (keys b))) (blocks s)); [|lia].
+        apply sumZ_le. intros b. unfold at_id. destruct (bid_eqb j (b_id b)); [|lia]. rewrite slack_unfold.
+        pose proof (zocc_nonneg c0 (b_stack b)). pose proof (zocc_nonneg c0 (inuse_keys b)). pose proof (zocc_nonneg c0 (wres b)). lia. }
+      rewrite (pairs_by_block c l (blocks s) (own_ids _ _ _ _ O)).
+      - assert (forall bs', (forall b, In b bs' -> In b (blocks s)) ->
+                  sumZ (fun b => zoccP (b_id b, c) l) bs' <= sumZ (fun b => zocc c (keys b)) bs').
+        { induction bs' as [|b r IH]; intros Hs; cbn [sumZ]; [lia|].
+          assert (Hb : In b (blocks s)) by (apply Hs; left; reflexivity).
+          specialize (Bd (b_id b) c). rewrite (sumZ_at_unique (b_id b) _ _ b (own_ids _ _ _ _ O) Hb eq_refl) in Bd.
+          cbn beta in Bd. specialize (IH (fun x Hx => Hs x (or_intror Hx))). lia. }
+        apply H0. auto.
+      - intros [j c0] Hp. cbn [fst].
+        assert (1 <= zoccP (j, c0) l) by (unfold zoccP; apply (occ_In pdec) in Hp; lia).
+        specialize (Bd j c0). apply live_iff_In. unfold live. intros Ef.
+        rewrite sumZ_at_none in Bd; [lia|]. apply find_bid_none. exact Ef. }
+    lia. }
+  split.
+  - apply zocc_NoDup. intros c. specialize (Sub c).
+    pose proof (proj1 (occ_NoDup Ndec _) (own_nodup _ _ _ _ O) c). unfold zocc in *. lia.
+  - intros c Hc. apply zocc_In in Hc. apply zocc_In. specialize (Sub c). lia.
+Qed.
+
+(* ================================================================== which database a connection belongs to *)
+Definition is_wsome (k : kont) : bool := match k with KConnWake _ _ (Some _) _ => true | _ => false end.
+Record dk (s s' : pool) : Prop := mkDk {
+  dk_db : s'.(g_conndb) = s.(g_conndb);
+  dk_keys : forall b', In b' s'.(blocks) -> forall c, In c (keys b') ->
+            exists b, In b s.(blocks) /\ b.(b_id) = b'.(b_id) /\ In c (keys b);
+  dk_held : forall c t d, In (c, (t, d)) s'.(g_held) ->
+            In (c, (t, d)) s.(g_held) \/ exists b, In b s.(blocks) /\ b_db b = d /\ In c (keys b);
+  dk_wake : forall k, In k s'.(ready) -> is_wsome k = true -> In k s.(ready) }.
+
+Lemma dk_refl s : dk s s.
+Proof. split; auto. intros b' Hb c Hc. exists b'. auto. Qed.
+Lemma dk_trans s1 s2 s3 : dk s1 s2 -> dk s2 s3 -> dk s1 s3.
+Proof.
+  intros [a1 a2 a3 a4] [b1 b2 b3 b4]. split.
+  - congruence.
+  - intros b' Hb c Hc. destruct (b2 b' Hb c Hc) as (b & Hb2 & E & Hc2).
+    destruct (a2 b Hb2 c Hc2) as (b0 & Hb0 & E0 & Hc0). exists b0. repeat split; auto. congruence.
+  - intros c t d H. destruct (b3 c t d H) as [H2|(b & Hb & Ed & Hc)]; [auto|].
+    right. destruct (a2 b Hb c Hc) as (b0 & Hb0 & E0 & Hc0). exists b0. repeat split; auto.
+    unfold b_db in *. congruence.
+  - auto.
+Qed.
+
+(* the step forms *)
+Lemma dk_eq s0 s s' :
+  s'.(g_conndb) = s.(g_conndb) -> s'.(blocks) = s.(blocks) -> s'.(g_held) = s.(g_held) -> s'.(ready) = s.(ready) ->
+  dk s0 s -> dk s0 s'.
+Proof. intros e1 e2 e3 e4 [a1 a2 a3 a4]. split; rewrite ?e1, ?e2, ?e3, ?e4; auto. Qed.
+Ltac dk_eq_tac := apply dk_eq; reflexivity.
+
+Lemma dk_blocks s0 bs s : (forall b, In b bs -> In b s.(blocks) \/ keys b = []) -> dk s0 s -> dk s0 (set_blocks bs s).
+Proof.
+  intros H [a1 a2 a3 a4]. split; cbn; auto.
+  intros b' Hb c Hc. destruct (H b' Hb) as [Hin|E]; [apply (a2 b' Hin c Hc)|rewrite E in Hc; destruct Hc].
+Qed.
+Lemma dk_upd_gen s0 b' s :
+  (forall c, In c (keys b') -> exists b, In b s.(blocks) /\ b.(b_id) = b'.(b_id) /\ In c (keys b)) ->
+  dk s0 s -> dk s0 (upd b' s).
+Proof.
+  intros H [a1 a2 a3 a4]. split; unfold upd; cbn; auto.
+  intros b'' Hb c Hc. apply In_upd_blk in Hb as [->|Hb]; [|apply (a2 b'' Hb c Hc)].
+  destruct (H c Hc) as (b & Hb & E & Hcb).
+  destruct (a2 b Hb c Hcb) as (b0 & Hb0 & E0 & Hc0). exists b0. repeat split; auto. congruence.
+Qed.
+Lemma dk_upd s0 b' s :
+  (forall c, In c (keys b') -> In c (keys (get_blk b'.(b_id) s))) -> dk s0 s -> dk s0 (upd b' s).
+Proof.
+  intros H. apply dk_upd_gen. intros c Hc. specialize (H c Hc). unfold get_blk in H.
+  destruct (find_bid (b_id b') (blocks s)) as [b|] eqn:Ef; [|destruct H].
+  exists b. repeat split; [eapply find_bid_In|eapply find_bid_id|]; eauto.
+Qed.
+Lemma dk_append s0 ks s : forallb (fun k => negb (is_wsome k)) ks = true -> dk s0 s -> dk s0 (set_ready (s.(ready) ++ ks) s).
+Proof.
+  intros H [a1 a2 a3 a4]. split; cbn; auto.
+  intros k Hk W. apply in_app_iff in Hk as [Hk|Hk]; [auto|].
+  rewrite forallb_forall in H. specialize (H k Hk). rewrite W in H. discriminate.
+Qed.
+Lemma dk_push s0 k s : is_wsome k = false -> dk s0 s -> dk s0 (push k s).
+Proof. intros H. unfold push. apply dk_append. cbn. rewrite H. reflexivity. Qed.
+Lemma dk_held_sub s0 h' s : incl h' s.(g_held) -> dk s0 s -> dk s0 (set_g_held h' s).
+Proof. intros H [a1 a2 a3 a4]. split; cbn; auto. Qed.
+
+Ltac same_keys := let Hc := fresh "Hc" in intros ? Hc; unfold keys in *; cbn [b_conns set_b_conns set_b_stack set_b_waiters set_b_pending set_b_nwait set_b_quota set_b_supp set_b_fails set_b_acq] in Hc; exact Hc.
+Lemma wsome_wake i w ok : is_wsome (wake_kont i w ok) = false.
+Proof. unfold wake_kont. destruct (snd w); reflexivity. Qed.
+
+Lemma dk_wakeup_next s0 i s : dk s0 s -> dk s0 (wakeup_next i s).
+Proof.
+  intros K. unfold wakeup_next. destruct (b_waiters (get_blk i s)); [exact K|].
+  apply dk_push; [apply wsome_wake|]. apply dk_upd; [bsimp; rewrite get_blk_id; same_keys|exact K].
+Qed.
+Lemma dk_abort_waiters s0 i s : dk s0 s -> dk s0 (abort_waiters i s).
+Proof.
+  intros K. unfold abort_waiters.
+  change (ready s) with (ready (upd (set_b_waiters [] (get_blk i s)) s)).
+  apply dk_append; [|apply dk_upd; [bsimp; rewrite get_blk_id; same_keys|exact K]].
+  induction (b_waiters (get_blk i s)); cbn; [reflexivity|]. rewrite wsome_wake. assumption.
+Qed.
+Lemma dk_block_release s0 i c s : dk s0 s -> dk s0 (block_release i c s).
+Proof. intros K. unfold block_release. apply dk_wakeup_next, dk_upd; [bsimp; rewrite get_blk_id; same_keys|exact K]. Qed.
+Lemma dk_try_steal s0 i s r s' : try_steal i s = (r, s') -> dk s0 s -> dk s0 s'.
+Proof.
+  unfold try_steal. destruct (b_stack (get_blk i s)); intros E K; inversion E; subst; [exact K|].
+  apply dk_upd; [bsimp; rewrite get_blk_id; same_keys|exact K].
+Qed.
+Lemma dk_perm_blocks s0 bs s : Permutation bs s.(blocks) -> dk s0 s -> dk s0 (set_blocks bs s).
+Proof. intros P. apply dk_blocks. intros b Hb. left. eapply Permutation_in; eauto. Qed.
+Lemma dk_sched_new_conn s0 i s : dk s0 s -> dk s0 (sched_new_conn i s).
+Proof.
+  intros K. unfold sched_new_conn. apply dk_push; [reflexivity|].
+  assert (K1 : dk s0 (set_cur (cur s + 1) (upd (set_b_pending (b_pending (get_blk i s) + 1) (get_blk i s)) s))).
+  { apply dk_eq with (s := upd (set_b_pending (b_pending (get_blk i s) + 1) (get_blk i s)) s); try reflexivity.
+    apply dk_upd; [bsimp; rewrite get_blk_id; same_keys|exact K]. }
+  match goal with |- dk _ (if ?x then _ else _) => destruct x end; [|exact K1].
+  apply dk_perm_blocks; [apply move_end_perm|exact K1].
+Qed.
+Lemma In_keys_aremove c (cs : list (N * bool)) x : In x (map fst (aremove c cs)) -> In x (map fst cs).
+Proof.
+  induction cs as [|[k v] cs IH]; cbn [aremove map fst]; [tauto|].
+  destruct (c =? k)%N; cbn [map fst In]; intros H; [right; exact H|]. destruct H; auto.
+Qed.
+Lemma dk_sched_transfer s0 f c t s : dk s0 s -> dk s0 (sched_transfer f c t s).
+Proof.
+  intros K. unfold sched_transfer. destruct (alookup _ _) as [[|]|].
+  1,3: (apply dk_eq with (s := s); try reflexivity; exact K).
+  apply dk_push; [reflexivity|].
+  set (s1 := upd (set_b_conns _ _) s).
+  assert (K1 : dk s0 s1).
+  { subst s1. apply dk_upd; [|exact K]. bsimp. rewrite get_blk_id. intros x Hx. unfold keys in *.
+    cbn [b_conns set_b_conns] in Hx. eapply In_keys_aremove; exact Hx. }
+  set (s2 := upd _ s1).
+  assert (K2 : dk s0 s2) by (subst s2; apply dk_upd; [bsimp; rewrite get_blk_id; same_keys|exact K1]).
+  match goal with |- dk _ (if ?x then _ else _) => destruct x end; [|exact K2].
+  apply dk_perm_blocks; [etransitivity; apply move_end_perm|exact K2].
+Qed.
+Lemma dk_sched_discard s0 i c p br s : dk s0 s -> dk s0 (sched_discard i c p br s).
+Proof. intros K. unfold sched_discard. apply dk_push; [reflexivity|exact K]. Qed.
+Lemma dk_maybe_sched_tick s0 s : dk s0 s -> dk s0 (maybe_sched_tick s).
+Proof. intros K. unfold maybe_sched_tick. destruct (_ && _); [apply dk_eq with (s := s); try reflexivity|]; exact K. Qed.
+Lemma dk_find_most_starving s0 s s' r : find_most_starving s = (s', r) -> dk s0 s -> dk s0 s'.
+Proof.
+  unfold find_most_starving. destruct (wl_pop _ _) as [wl o]. intros E K.
+  destruct o; [|destruct (starve_revive _ _ _)]; inversion E; subst; (apply dk_eq with (s := s); try reflexivity; exact K).
+Qed.
+Lemma dk_maybe_free s0 f c s s' r : maybe_free f c s = (s', r) -> dk s0 s -> dk s0 s'.
+Proof.
+  unfold maybe_free. destruct (find_most_starving s) as [s1 to] eqn:E. intros E2 K.
+  assert (K1 : dk s0 s1) by (eapply dk_find_most_starving; eauto).
+  destruct to as [j|]; [destruct (bid_eqb j f)|]; inversion E2; subst; try exact K1.
+  apply dk_sched_transfer, K1.
+Qed.
+Lemma dk_release_unused s0 i c s : dk s0 s -> dk s0 (release_unused i c s).
+Proof.
+  intros K. unfold release_unused.
+  assert (K1 : dk s0 (block_release i c s)) by (apply dk_block_release, K).
+  match goal with |- dk _ (if ?x then _ else _) => destruct x end;
+    (eapply dk_eq; [| | | |exact K1]; reflexivity).
+Qed.
+Lemma dk_try_steal_conn o f l : forall s0 s s' r, try_steal_conn o f l s = (s', r) -> dk s0 s -> dk s0 s'.
+Proof.
+  induction l as [|i l IH]; intros s0 s s' r E K; cbn [try_steal_conn] in E.
+  - inversion E; subst; exact K.
+  - destruct (bid_eqb i f || negb (should_free o i s)); [eapply IH; eauto|].
+    destruct (try_steal i s) as [[c|] s1] eqn:Es; [|eapply IH; eauto].
+    inversion E; subst. apply dk_sched_transfer. eapply dk_try_steal; eauto.
+Qed.
+Lemma dk_try_shrink o i fuel : forall s0 s, dk s0 s -> dk s0 (try_shrink o i fuel s).
+Proof.
+  induction fuel as [|f IH]; intros s0 s K; cbn [try_shrink]; [exact K|].
+  destruct (_ && _); [|exact K].
+  destruct (try_steal i s) as [[c|] s1] eqn:Es; [|exact K].
+  destruct (find_most_starving s1) as [s2 to] eqn:Ef.
+  apply IH. assert (K2 : dk s0 s2) by (eapply dk_find_most_starving; [eauto|]; eapply dk_try_steal; eauto).
+  destruct to; [apply dk_sched_transfer|apply dk_sched_discard]; exact K2.
+Qed.
+Lemma dk_grow i fuel : forall s0 s, dk s0 s -> dk s0 (grow i fuel s).
+Proof.
+  induction fuel as [|f IH]; intros s0 s K; cbn [grow]; [exact K|].
+  destruct (_ && _); [|exact K]. apply IH, dk_sched_new_conn, K.
+Qed.
+Lemma dk_set_overq s0 v s : dk s0 s -> dk s0 (set_overq v s).
+Proof. apply dk_eq; reflexivity. Qed.
+Lemma dk_rebalance_one o i s0 s : dk s0 s -> dk s0 (rebalance_one o i s).
+Proof.
+  intros K. unfold rebalance_one.
+  destruct (_ <? _); [|destruct (_ <? _); [apply dk_grow|]; exact K].
+  match goal with |- dk _ (if ?x then _ else _) => destruct x end;
+    [apply dk_set_overq|]; apply dk_try_shrink, K.
+Qed.
+Lemma dk_rebalance_loop o l : forall s0 s, dk s0 s -> dk s0 (rebalance_loop o l s).
+Proof. induction l; intros; cbn [rebalance_loop]; [assumption|]. apply IHl, dk_rebalance_one; assumption. Qed.
+Lemma dk_rebalance o s0 s : dk s0 s -> dk s0 (rebalance o s).
+Proof.
+  intros K. unfold rebalance. destruct (starving s); [exact K|].
+  apply dk_set_overq, dk_rebalance_loop, dk_set_overq, K.
+Qed.
+
+Lemma alookup_In_keys_z c (cs : list (N * bool)) v : alookup c cs = Some v -> In c (map fst cs).
+Proof. intros H. apply (occ_In Ndec). eapply alookup_In_keys; eauto. Qed.
+
+Lemma dk_finish_acquire s0 t d c s : dk s0 s -> dk s0 (finish_acquire t d c s).
+Proof.
+  intros K. unfold finish_acquire.
+  assert (K1 : dk s0 (set_nacq (nacq s - 1) s)) by (apply dk_eq with (s := s); try reflexivity; exact K).
+  destruct (find_db d _) as [b|] eqn:Ed; [|apply dk_eq with (s := set_nacq (nacq s - 1) s); try reflexivity; exact K1].
+  destruct (alookup c (b_conns b)) as [[|]|] eqn:El;
+    try (apply dk_eq with (s := set_nacq (nacq s - 1) s); try reflexivity; exact K1).
+  cbn [blocks set_nacq] in Ed. destruct (find_db_In _ _ _ Ed) as [Hb Edb].
+  set (b' := set_b_acq _ _).
+  assert (K2 : dk s0 (upd b' (set_nacq (nacq s - 1) s))).
+  { apply dk_upd_gen; [|exact K1]. subst b'. bsimp. intros x Hx. unfold keys in *.
+    cbn [b_conns set_b_conns set_b_acq] in Hx. rewrite keys_aset in Hx.
+    exists b. repeat split; auto. }
+  unfold emit.
+  destruct K2 as [a1 a2 a3 a4]. split; cbn; auto.
+  intros c0 t0 d0 [E|H]; [|apply (a3 c0 t0 d0 H)].
+  inversion E; subst. right.
+  destruct (dk_keys _ _ K b Hb c0 (alookup_In_keys_z _ _ _ El)) as (b0 & Hb0 & E0 & Hc0).
+  exists b0. repeat split; auto. unfold b_db in *. congruence.
+Qed.
+Lemma dk_block_acquire s0 t i f s : dk s0 s -> dk s0 (block_acquire t i f s).
+Proof.
+  intros K. unfold block_acquire. destruct (split_last _) as [[r c]|].
+  - apply dk_finish_acquire, dk_upd; [bsimp; rewrite get_blk_id; same_keys|exact K].
+  - apply dk_upd; [bsimp; rewrite get_blk_id; same_keys|exact K].
+Qed.
+Lemma dk_get_block s0 d s i s' : get_block d s = (i, s') -> dk s0 s -> dk s0 s'.
+Proof.
+  unfold get_block. destruct (find_db d (blocks s)); intros E K; inversion E; subst; [exact K|].
+  apply dk_eq with (s := set_blocks (if starving s then new_blk (d, next_bid s) :: blocks s else blocks s ++ [new_blk (d, next_bid s)]) s); try reflexivity.
+  apply dk_blocks; [|exact K]. intros b Hb.
+  destruct (starving s); [destruct Hb as [<-|Hb]|apply in_app_iff in Hb as [Hb|[<-|[]]]]; auto.
+Qed.
+Ltac dif := match goal with |- dk _ (if ?x then _ else _) => destruct x end.
+Lemma dk_acquire_start o t d s0 s : dk s0 s -> dk s0 (acquire_start o t d s).
+Proof.
+  intros K. unfold acquire_start.
+  destruct (get_block d _) as [i s1] eqn:Eg.
+  assert (K1 : dk s0 s1).
+  { eapply dk_get_block; [eauto|]. apply dk_maybe_sched_tick. apply dk_eq with (s := s); try reflexivity; exact K. }
+  set (s2 := upd _ s1). assert (K2 : dk s0 s2) by (apply dk_upd; [bsimp; rewrite get_blk_id; same_keys|exact K1]).
+  dif.
+  - apply dk_block_acquire. dif; [dif|dif]; try exact K2; apply dk_sched_new_conn; assumption.
+  - dif; [|dif].
+    + destruct (try_steal_conn o i (overq s2) s2) as [s3 ok] eqn:Et.
+      assert (K3 : dk s0 s3) by (eapply dk_try_steal_conn; eauto).
+      apply dk_block_acquire. destruct ok; [|apply dk_eq with (s := s3); try reflexivity]; exact K3.
+    + destruct (try_steal_conn o i (overq s2) s2) as [s3 ok] eqn:Et.
+      apply dk_block_acquire. eapply dk_try_steal_conn; eauto.
+    + apply dk_block_acquire, K2.
+Qed.
+Lemma dk_acquire_wake t i ok s0 s : dk s0 s -> dk s0 (acquire_wake t i ok s).
+Proof.
+  intros K. unfold acquire_wake. destruct ok.
+  - destruct (split_last _) as [[r c]|].
+    + apply dk_finish_acquire, dk_upd; [bsimp; rewrite get_blk_id; same_keys|exact K].
+    + apply dk_block_acquire, dk_upd; [bsimp; rewrite get_blk_id; same_keys|exact K].
+  - set (s2 := match b_stack (get_blk i s) with [] => s | _ :: _ => wakeup_next i s end).
+    assert (K2 : dk s0 s2) by (subst s2; destruct (b_stack _); [exact K|apply dk_wakeup_next, K]).
+    apply dk_eq with (s := upd (set_b_nwait (b_nwait (get_blk i s2) - 1) (get_blk i s2)) s2); try reflexivity.
+    apply dk_upd; [bsimp; rewrite get_blk_id; same_keys|exact K2].
+Qed.
+Lemma dk_prune_cont t i acc s0 s : dk s0 s -> dk s0 (prune_cont t i acc s).
+Proof.
+  intros K. unfold prune_cont. destruct (_ && _); [apply dk_upd; [bsimp; rewrite get_blk_id; same_keys|exact K]|].
+  destruct acc as [|a acc']; [apply dk_eq with (s := s); try reflexivity; exact K|].
+  apply dk_eq with (s := set_ready (ready s ++ map (fun c => KDiscStart i c (Some t) false) (a :: acc')) s); try reflexivity.
+  apply dk_append; [|exact K]. induction (a :: acc'); cbn; auto.
+Qed.
+Lemma dk_prune_start t d s0 s : dk s0 s -> dk s0 (prune_start t d s).
+Proof.
+  intros K. unfold prune_start. destruct (find_db _ _) as [b|] eqn:Ed; [|apply dk_eq with (s := s); try reflexivity; exact K].
+  destruct (find_db_In _ _ _ Ed) as [Hb _].
+  apply dk_prune_cont, dk_upd_gen; [|exact K]. bsimp. intros x Hx. exists b. repeat split; auto.
+Qed.
+Lemma dk_prune_wake t i acc ok s0 s : dk s0 s -> dk s0 (prune_wake t i acc ok s).
+Proof.
+  intros K. unfold prune_wake. destruct ok.
+  - destruct (split_last _) as [[r c]|]; apply dk_prune_cont, dk_upd; try exact K; bsimp; rewrite get_blk_id; same_keys.
+  - set (s2 := match b_stack (get_blk i s) with [] => s | _ :: _ => wakeup_next i s end).
+    assert (K2 : dk s0 s2) by (subst s2; destruct (b_stack _); [exact K|apply dk_wakeup_next, K]).
+    apply dk_eq with (s := upd (set_b_nwait (b_nwait (get_blk i s2) - 1) (get_blk i s2)) s2); try reflexivity.
+    apply dk_upd; [bsimp; rewrite get_blk_id; same_keys|exact K2].
+Qed.
+Lemma dk_gather_cb t s0 s : dk s0 s -> dk s0 (gather_cb t s).
+Proof.
+  intros K. unfold gather_cb. destruct (alookup _ _); [|exact K].
+  destruct (_ <=? _); [apply dk_push; [reflexivity|]|]; (apply dk_eq with (s := s); try reflexivity; exact K).
+Qed.
+Lemma dk_tick_scan o ids : forall s0 s tot need drop s' a b c,
+  tick_scan o ids s tot need drop = (s', a, b, c) -> dk s0 s -> dk s0 s'.
+Proof.
+  induction ids as [|i r IH]; intros s0 s tot need drop s' a b c E K; cbn [tick_scan] in E.
+  - inversion E; subst; exact K.
+  - destruct (_ && _); [|destruct (_ =? _)]; eapply IH; eauto; (apply dk_upd; [bsimp; rewrite get_blk_id; same_keys|exact K]).
+Qed.
+Lemma dk_drop_all ids : forall s0 s s' r, drop_all ids s = (s', r) -> dk s0 s -> dk s0 s'.
+Proof.
+  induction ids as [|i r IH]; intros s0 s s' r0 E K; cbn [drop_all] in E.
+  - inversion E; subst; exact K.
+  - destruct (_ || _); [inversion E; subst; exact K|]. eapply IH; eauto.
+    apply dk_blocks; [|exact K]. intros b Hb. left. eapply In_remove_bid; eauto.
+Qed.
+Lemma dk_modeD_quota o ids : forall s0 s, dk s0 s -> dk s0 (modeD_quota o ids s).
+Proof.
+  induction ids as [|i r IH]; intros s0 s K; cbn [modeD_quota]; [exact K|]. apply IH.
+  assert (Q : forall q, dk s0 (upd (set_b_quota q (get_blk i s)) s))
+    by (intros q; apply dk_upd; [bsimp; rewrite get_blk_id; same_keys|exact K]).
+  assert (M : forall q, dk s0 (set_blocks (move_end i (upd_blk (set_b_quota q (get_blk i s)) (blocks s))) s)).
+  { intros q. exact (dk_perm_blocks s0 _ (upd (set_b_quota q (get_blk i s)) s) (move_end_perm i _) (Q q)). }
+  destruct (_ =? 1); [destruct (mem_n _ _)|destruct (_ <? _)]; auto.
+Qed.
+Lemma dk_free_loop o i fuel : forall s0 s s' r, free_loop o i fuel s = (s', r) -> dk s0 s -> dk s0 s'.
+Proof.
+  induction fuel as [|f IH]; intros s0 s s' r E K; cbn [free_loop] in E.
+  - inversion E; subst; exact K.
+  - destruct (should_free o i s); [|inversion E; subst; exact K].
+    destruct (try_steal i s) as [[c|] s1] eqn:Es; [|inversion E; subst; exact K].
+    destruct (maybe_free i c s1) as [s2 ok] eqn:Em.
+    assert (K2 : dk s0 s2) by (eapply dk_maybe_free; [eauto|]; eapply dk_try_steal; eauto).
+    destruct ok; [eapply IH; eauto|]. inversion E; subst. apply dk_release_unused, K2.
+Qed.
+Lemma dk_modeD_free o ids : forall s0 s, dk s0 s -> dk s0 (modeD_free o ids s).
+Proof.
+  induction ids as [|i r IH]; intros s0 s K; cbn [modeD_free]; [exact K|].
+  destruct (free_loop _ _ _ _) as [s1 stop] eqn:Ef.
+  assert (K1 : dk s0 s1) by (eapply dk_free_loop; eauto).
+  destruct stop; [exact K1|apply IH, K1].
+Qed.
+Lemma dk_set_quotas cq : forall s0 s, dk s0 s -> dk s0 (set_quotas cq s).
+Proof.
+  induction cq as [|[d q] r IH]; intros s0 s K; cbn [set_quotas]; [exact K|]. apply IH.
+  destruct (find_db _ _) as [b|] eqn:Ed; [|exact K]. destruct (find_db_In _ _ _ Ed) as [Hb _].
+  apply dk_upd_gen; [|exact K]. bsimp. intros x Hx. exists b. repeat split; auto.
+Qed.
+Lemma dk_tick o s0 s : dk s0 s -> dk s0 (tick o s).
+Proof.
+  intros K. unfold tick.
+  assert (K0 : dk s0 (maybe_sched_tick (set_tick_armed false s)))
+    by (apply dk_maybe_sched_tick; apply dk_eq with (s := s); try reflexivity; exact K).
+  destruct (blocks _) as [|b [|b2 bs]] eqn:Eb.
+  - apply dk_eq with (s := maybe_sched_tick (set_tick_armed false s)); try reflexivity; exact K0.
+  - apply dk_upd_gen.
+    + bsimp. intros x Hx. exists b. cbn [blocks set_starving]. rewrite Eb. repeat split; auto. left; reflexivity.
+    + apply dk_eq with (s := maybe_sched_tick (set_tick_armed false s)); try reflexivity; exact K0.
+  - destruct (tick_scan _ _ _ _ _ _) as [[[s1 tot] need] drop] eqn:Et.
+    assert (K1 : dk s0 s1) by (eapply dk_tick_scan; eauto).
+    destruct (drop_all _ _) as [s3 crashed] eqn:Ed.
+    assert (K3 : dk s0 s3) by (eapply dk_drop_all; [eauto|]; apply dk_eq with (s := s1); try reflexivity; exact K1).
+    destruct crashed; [apply dk_eq with (s := s3); try reflexivity; exact K3|].
+    dif; [exact K3|]. dif.
+    { dif; [apply dk_rebalance|]; exact K3. }
+    dif.
+    + dif; [apply dk_modeD_free|]; apply dk_modeD_quota, K3.
+    + dif; [apply dk_eq with (s := set_quotas (o_cq o) s3); try reflexivity|apply dk_rebalance]; apply dk_set_quotas, K3.
+Qed.
+Lemma dk_gc_block i n : forall s0 s, dk s0 s -> dk s0 (gc_block i n s).
+Proof.
+  induction n as [|m IH]; intros s0 s K; cbn [gc_block]; [exact K|].
+  destruct (try_steal i s) as [[c|] s1] eqn:Es; [|exact K].
+  apply IH, dk_sched_discard. eapply dk_try_steal; eauto.
+Qed.
+Lemma dk_gc_all o ids : forall s0 s, dk s0 s -> dk s0 (gc_all o ids s).
+Proof. induction ids; intros; cbn [gc_all]; [assumption|]. apply IHids, dk_gc_block; assumption. Qed.
+Lemma dk_run_gc o s0 s : dk s0 s -> dk s0 (run_gc o s).
+Proof.
+  intros K. unfold run_gc.
+  destruct (starving _); [apply dk_eq with (s := s); try reflexivity; exact K|].
+  apply dk_gc_all. destruct (_ <? _); (apply dk_eq with (s := s); try reflexivity; exact K).
+Qed.
+Lemma In_aremove {A} k (l : list (N * A)) x : In x (aremove k l) -> In x l.
+Proof.
+  induction l as [|[k' v] l IH]; cbn [aremove]; [tauto|].
+  destruct (k =? k')%N; cbn [In]; intros H; [right; exact H|]. destruct H; auto.
+Qed.
+Lemma dk_release o d c discard s0 s : dk s0 s -> dk s0 (release o d c discard s).
+Proof.
+  intros K. unfold release.
+  destruct (find_db d _) as [b|] eqn:Ed; [|apply dk_eq with (s := s); try reflexivity; exact K].
+  destruct (alookup c (b_conns b)) as [[|]|]; try (apply dk_eq with (s := s); try reflexivity; exact K).
+  destruct (find_db_In _ _ _ Ed) as [Hb _].
+  set (s1 := maybe_sched_tick _).
+  assert (K1 : dk s0 s1).
+  { subst s1. apply dk_maybe_sched_tick, dk_held_sub.
+    - cbn. intros x Hx. eapply In_aremove; eauto.
+    - apply dk_upd_gen; [|exact K]. bsimp. intros x Hx. unfold keys in Hx. cbn [b_conns set_b_conns set_b_acq] in Hx.
+      rewrite keys_aset in Hx. exists b. repeat split; auto. }
+  destruct (if should_free o (b_id b) s1 then maybe_free (b_id b) c s1 else (s1, false)) as [s2 moved] eqn:Em.
+  assert (K2 : dk s0 s2).
+  { destruct (should_free o (b_id b) s1); [eapply dk_maybe_free; eauto|inversion Em; subst; exact K1]. }
+  destruct moved; [exact K2|].
+  destruct discard; [apply dk_sched_new_conn, dk_sched_discard|apply dk_release_unused]; exact K2.
+Qed.
+
+Record DbI (s : pool) : Prop := mkDbI {
+  db_keys : forall b, In b s.(blocks) -> forall c, In c (keys b) -> alookup c s.(g_conndb) = Some (b_db b);
+  db_held : forall c t d, In (c, (t, d)) s.(g_held) -> alookup c s.(g_conndb) = Some d;
+  db_wake : forall cid i c nodb, In (KConnWake cid i (Some c) nodb) s.(ready) -> alookup c s.(g_conndb) = Some (fst i) }.
+
+Lemma dk_DbI s s' : dk s s' -> DbI s -> DbI s'.
+Proof.
+  intros [a1 a2 a3 a4] [d1 d2 d3]. split; rewrite a1.
+  - intros b' Hb c Hc. destruct (a2 b' Hb c Hc) as (b & Hb0 & E & Hc0).
+    rewrite (d1 b Hb0 c Hc0). unfold b_db. rewrite E. reflexivity.
+  - intros c t d H. destruct (a3 c t d H) as [H0|(b & Hb & E & Hc)]; [eauto|].
+    rewrite (d1 b Hb c Hc). rewrite E. reflexivity.
+  - intros cid i c nodb H. apply (d3 cid i c nodb). apply a4; [exact H|reflexivity].
+Qed.
+
+Lemma step_DbI s e o s' : OwnI s -> DbI s -> step s e o = Some s' -> DbI s'.
+Proof.
+  intros O D St.
+  assert (K0 : dk s (set_outs [] s)) by (apply dk_eq with (s := s); try reflexivity; apply dk_refl).
+  destruct e; cbn [step] in St.
+  - destruct (_ =? _)%N; inversion St; subst. eapply dk_DbI; [|exact D].
+    apply dk_push; [reflexivity|]. apply dk_eq with (s := s); try reflexivity. apply dk_refl.
+  - destruct (_ =? _)%N; inversion St; subst. eapply dk_DbI; [|exact D].
+    apply dk_push; [reflexivity|]. apply dk_eq with (s := s); try reflexivity. apply dk_refl.
+  - inversion St; subst. eapply dk_DbI; [apply dk_release, K0|exact D].
+  - (* EConnOk: a fresh connection id; it belongs to the database the connect callback was called for *)
+    destruct (alookup cid _) as [i|] eqn:El; inversion St; subst; clear St.
+    destruct D as [d1 d2 d3].
+    assert (Fr : forall c, In c (g_open s) -> (c =? next_conn s)%N = false).
+    { intros c Hc. apply N.eqb_neq. pose proof (own_fresh _ _ _ _ O c Hc). lia. }
+    assert (Kopen : forall b c, In b (blocks s) -> In c (keys b) -> In c (g_open s)).
+    { intros b c Hb Hc. apply zocc_In. apply zocc_In in Hc.
+      destruct (own_block_facts s b c O Hb) as (_ & F2 & _). pose proof (zocc_nonneg c (limbo s)). lia. }
+    split; cbn.
+    + intros b Hb c Hc. rewrite (Fr c (Kopen b c Hb Hc)). auto.
+    + intros c t d H. specialize (d2 c t d H).
+      assert (Hin : In c (g_open s)).
+      { (* a lent connection is in_use in some block *)
+        apply zocc_In.
+        assert (H1 : 1 <= zocc c (map fst (g_held s))) by (apply zocc_In; apply (in_map fst) in H; exact H).
+        rewrite (own_held _ _ _ _ O c) in H1.
+        destruct (sumZ_pos_In _ _ (fun b _ => zocc_nonneg c (inuse_keys b)) H1) as (b & Hb & Hw).
+        destruct (own_block_facts s b c O Hb) as (F1 & F2 & _).
+        pose proof (zocc_nonneg c (limbo s)). pose proof (zocc_nonneg c (b_stack b)). pose proof (zocc_nonneg c (wres b)). lia. }
+      rewrite (Fr c Hin). exact d2.
+    + intros cid0 i0 c nodb Hin. apply in_app_iff in Hin as [Hin|[E|[]]].
+      * assert (Ho : In c (g_open s)).
+        { apply zocc_In. pose proof (own_open _ _ _ _ O c) as Op. unfold limbo in Op. rewrite zocc_app, zocc_nil in Op.
+          assert (1 <= zocc c (flat_map kont_limbo (ready s))).
+          { apply zocc_In. apply in_flat_map. exists (KConnWake cid0 i0 (Some c) nodb). split; [exact Hin|left; reflexivity]. }
+          assert (0 <= sumZ (fun b => zocc c (keys b)) (blocks s)) by (apply sumZ_nonneg; intros; apply zocc_nonneg).
+          pose proof (zocc_nonneg c (map (fun e : N * (N * after_disc) => fst (snd e)) (infl_disc s))). lia. }
+        rewrite (Fr c Ho). eapply d3; eauto.
+      * inversion E; subst. rewrite N.eqb_refl. reflexivity.
+  - destruct (alookup cid _) as [i|] eqn:El; inversion St; subst; clear St.
+    eapply dk_DbI; [|exact D]. apply dk_push; [reflexivity|]. apply dk_eq with (s := s); try reflexivity. apply dk_refl.
+  - destruct (alookup did _) as [[c a]|] eqn:El; inversion St; subst; clear St.
+    eapply dk_DbI; [|exact D]. apply dk_push; [reflexivity|]. apply dk_eq with (s := s); try reflexivity. apply dk_refl.
+  - destruct (alookup did _) as [[c a]|] eqn:El; inversion St; subst; clear St.
+    eapply dk_DbI; [|exact D]. apply dk_push; [reflexivity|]. apply dk_eq with (s := s); try reflexivity. apply dk_refl.
+  - destruct (tick_armed _); inversion St; subst. eapply dk_DbI; [apply dk_tick, K0|exact D].
+  - destruct (_ <? _); inversion St; subst. eapply dk_DbI; [apply dk_run_gc, K0|exact D].
+  - cbn in St. destruct (ready s) as [|k r] eqn:Er; inversion St; subst; clear St.
+    set (s0 := set_ready r (set_outs [] s)).
+    assert (Kp : dk s s0).
+    { split; cbn; auto.
+      - intros b' Hb c Hc. exists b'. auto.
+      - intros k0 Hk _. rewrite Er. right. exact Hk. }
+    destruct k as [t d|t i ok|i|cid i res nodb|f c to|i c p br|did c a ok|t d|t i acc ok|t|t]; cbn [run_kont].
+    + eapply dk_DbI; [apply dk_acquire_start, Kp|exact D].
+    + eapply dk_DbI; [apply dk_acquire_wake, Kp|exact D].
+    + eapply dk_DbI; [|exact D]. unfold call_connect, emit. apply dk_eq with (s := s0); try reflexivity. exact Kp.
+    + destruct res as [c|].
+      * (* the new connection enters the dict of block i *)
+        assert (Dc : alookup c (g_conndb s) = Some (fst i)) by (eapply (db_wake _ D); rewrite Er; left; reflexivity).
+        assert (D0 : DbI s0) by (eapply dk_DbI; eauto).
+        unfold connect_wake.
+        set (b' := set_b_conns _ _).
+        assert (D1 : DbI (upd b' s0)).
+        { destruct D0 as [d1 d2 d3]. split; unfold upd; cbn; auto.
+          intros b Hb x Hx. apply In_upd_blk in Hb as [->|Hb]; [|apply (d1 b Hb x Hx)].
+          subst b'. unfold keys in Hx. cbn [b_conns set_b_conns set_b_pending set_b_fails] in Hx.
+          rewrite map_app in Hx. apply in_app_iff in Hx as [Hx|[<-|[]]].
+          - assert (Eb : b_db (set_b_conns (b_conns (get_blk i s0) ++ [(c, false)])
+                        (set_b_pending (b_pending (get_blk i s0) - 1) (set_b_fails 0 (get_blk i s0)))) = fst i)
+              by (unfold b_db; bsimp; rewrite get_blk_id; reflexivity).
+            rewrite Eb. unfold get_blk in Hx. destruct (find_bid i (blocks s0)) as [b|] eqn:Ef; [|destruct Hx].
+            pose proof (d1 b (find_bid_In _ _ _ Ef) x Hx) as E1. cbn in E1. rewrite E1.
+            unfold b_db. rewrite (find_bid_id _ _ _ Ef). reflexivity.
+          - cbn [fst]. rewrite Dc. unfold b_db. bsimp. rewrite get_blk_id. reflexivity. }
+        eapply dk_DbI; [|exact D1]. apply dk_block_release, dk_refl.
+      * eapply dk_DbI; [|exact D]. unfold connect_wake.
+        set (s1 := set_cur (cur s0 - 1) s0).
+        assert (K1 : dk s s1) by (apply dk_eq with (s := s0); try reflexivity; exact Kp).
+        set (s2 := upd _ s1).
+        assert (K2 : dk s s2) by (apply dk_upd; [bsimp; rewrite get_blk_id; same_keys|exact K1]).
+        match goal with |- dk _ (upd _ (if ?x then ?a else ?b)) => set (s3 := if x then a else b) end.
+        assert (K3 : dk s s3) by (subst s3; match goal with |- dk _ (if ?x then _ else _) => destruct x end;
+                                   [apply dk_abort_waiters|apply dk_sched_new_conn]; exact K2).
+        apply dk_upd; [bsimp; rewrite get_blk_id; same_keys|exact K3].
+    + eapply dk_DbI; [|exact D]. unfold call_disconnect, emit. apply dk_eq with (s := s0); try reflexivity. exact Kp.
+    + eapply dk_DbI; [|exact D]. unfold discard_start.
+      destruct (alookup c _) as [[|]|]; try (apply dk_eq with (s := s0); try reflexivity; exact Kp).
+      unfold call_disconnect, emit.
+      apply dk_eq with (s := upd (set_b_conns (aremove c (b_conns (get_blk i s0))) (get_blk i s0)) s0); try reflexivity.
+      apply dk_upd; [|exact Kp]. bsimp. rewrite get_blk_id. intros x Hx. unfold keys in *.
+      cbn [b_conns set_b_conns] in Hx. eapply In_keys_aremove; exact Hx.
+    + eapply dk_DbI; [|exact D]. unfold disconnect_wake. destruct a as [to|[t|] br].
+      * unfold call_connect, emit. apply dk_eq with (s := s0); try reflexivity. exact Kp.
+      * apply dk_push; [reflexivity|]. apply dk_eq with (s := s0); try reflexivity. exact Kp.
+      * apply dk_eq with (s := s0); try reflexivity. exact Kp.
+    + eapply dk_DbI; [apply dk_prune_start, Kp|exact D].
+    + eapply dk_DbI; [apply dk_prune_wake, Kp|exact D].
+    + eapply dk_DbI; [apply dk_gather_cb, Kp|exact D].
+    + eapply dk_DbI; [|exact D]. apply dk_eq with (s := s0); try reflexivity. exact Kp.
+Qed.
+
+Lemma DbI_init mx : DbI (init mx).
+Proof. split; cbn; intros; tauto. Qed.
+
+Lemma reach_DbI mx s : 0 <= mx -> reach mx s -> DbI s.
+Proof.
+  intros Hm R. induction R as [|s e o s' R IH St]; [apply DbI_init|].
+  destruct (reach_Inv _ _ Hm R) as (_ & O & _). eapply step_DbI; eauto.
+Qed.
+
+(* ---- C15: a lent connection was opened for the database the acquirer asked for *)
+Lemma p_lent_db mx s c t d : 0 <= mx -> reach mx s -> In (c, (t, d)) s.(g_held) ->
+  alookup c s.(g_conndb) = Some d /\
+  exists b, In b s.(blocks) /\ b_db b = d /\ alookup c b.(b_conns) = Some true.
+Proof.
+  intros Hm R H. pose proof (reach_DbI _ _ Hm R) as D.
+  split; [eapply db_held; eauto|].
+  destruct (p_single_lender _ _ Hm R) as [_ L]. destruct (L c t d H) as (_ & _ & b & Hb & Al & _ & _).
+  exists b. repeat split; auto.
+  pose proof (db_keys _ D b Hb c (alookup_In_keys_z _ _ _ Al)) as E1.
+  pose proof (db_held _ D c t d H) as E2. congruence.
+Qed.
+
+(* ================================================================== C16: no lost wake-up *)
+Definition is_wok (i : bid) (k : kont) : bool :=
+  match k with
+  | KAcqWake _ j true => bid_eqb i j
+  | KPruneWake _ j _ true => bid_eqb i j
+  | _ => false
+  end.
+Definition nwok (s : pool) (i : bid) : Z := cnt (is_wok i) s.(ready).
+(* a block with queued waiters never has more idle connections than successful wake-ups on their way *)
+Definition Pw (s : pool) (b : blk) : Prop := b.(b_waiters) <> [] -> zlen b.(b_stack) <= nwok s b.(b_id).
+Definition W (s : pool) : Prop := forall b, In b s.(blocks) -> Pw s b.
+
+Lemma W_upd s b' : W s -> Pw s b' -> W (upd b' s).
+Proof.
+  intros Hw Hp b Hb. unfold upd in Hb. cbn in Hb. apply In_upd_blk in Hb as [->|Hb]; [exact Hp|].
+  exact (Hw b Hb).
+Qed.
+Lemma W_mono s s' : W s -> s'.(blocks) = s.(blocks) -> (forall i, nwok s i <= nwok s' i) -> W s'.
+Proof. intros Hw E M b Hb Hne. rewrite E in Hb. specialize (Hw b Hb Hne). specialize (M (b_id b)). lia. Qed.
+Lemma W_eq s s' : W s -> s'.(blocks) = s.(blocks) -> s'.(ready) = s.(ready) -> W s'.
+Proof. intros Hw E R. apply (W_mono s); auto. intros i. unfold nwok. rewrite R. lia. Qed.
+Lemma W_append s ks : W s -> W (set_ready (s.(ready) ++ ks) s).
+Proof. intros Hw. apply (W_mono s); auto. intros i. unfold nwok. cbn. rewrite cnt_app. pose proof (cnt_nonneg (is_wok i) ks). lia. Qed.
+Lemma W_push s k : W s -> W (push k s).
+Proof. apply W_append. Qed.
+Lemma W_blocks s bs : W s -> (forall b, In b bs -> In b s.(blocks) \/ b.(b_waiters) = []) -> W (set_blocks bs s).
+Proof.
+  intros Hw H b Hb Hne. cbn in Hb. destruct (H b Hb) as [Hin|E]; [|contradiction].
+  exact (Hw b Hin Hne).
+Qed.
+Lemma Pw_get s i : W s -> Pw s (get_blk i s).
+Proof.
+  intros Hw. unfold get_blk. destruct (find_bid i (blocks s)) as [b|] eqn:Ef.
+  - apply Hw. eapply find_bid_In; eauto.
+  - intros Hne. cbn in Hne. contradiction.
+Qed.
+(* the stack does not grow and the waiters stay *)
+Lemma W_upd_le s i b' : W s -> b'.(b_id) = i ->
+  (b'.(b_waiters) <> [] -> (get_blk i s).(b_waiters) <> [] /\ zlen b'.(b_stack) <= zlen (get_blk i s).(b_stack)) ->
+  W (upd b' s).
+Proof.
+  intros Hw E H. apply W_upd; [exact Hw|]. intros Hne. destruct (H Hne) as [H1 H2].
+  pose proof (Pw_get s i Hw H1) as P. rewrite get_blk_id in P. rewrite E. lia.
+Qed.
+Ltac w_same i := apply (W_upd_le _ i); [assumption|bsimp; apply get_blk_id|bsimp; let Hne := fresh "Hne" in intros Hne; split; [exact Hne|lia]].
+
+Lemma W_wakeup_next i s : W s -> W (wakeup_next i s).
+Proof.
+  intros Hw. unfold wakeup_next. destruct (b_waiters (get_blk i s)) as [|w ws] eqn:Ew; [exact Hw|].
+  apply W_push. apply (W_upd_le _ i); [exact Hw|bsimp; apply get_blk_id|]. bsimp. intros _. rewrite Ew. split; [discriminate|lia].
+Qed.
+Lemma W_abort_waiters i s : W s -> W (abort_waiters i s).
+Proof.
+  intros Hw. unfold abort_waiters.
+  change (ready s) with (ready (upd (set_b_waiters [] (get_blk i s)) s)). apply W_append.
+  apply W_upd; [exact Hw|]. intros Hne. cbn in Hne. contradiction.
+Qed.
+Lemma nwok_push_wake s i w : nwok (push (wake_kont i w true) s) i = nwok s i + 1.
+Proof.
+  unfold nwok, push. cbn. rewrite cnt_app, cnt_cons, cnt_nil. unfold wake_kont.
+  destruct (snd w); cbn [is_wok]; rewrite bid_eqb_refl; cbn [b2z]; lia.
+Qed.
+(* Block.release: push and wake in one atomic section *)
+Lemma W_block_release i c s : W s -> W (block_release i c s).
+Proof.
+  intros Hw. unfold block_release, wakeup_next.
+  set (b := get_blk i s). set (s1 := upd (set_b_stack (b_stack b ++ [c]) b) s).
+  destruct (find_bid i (blocks s)) as [b0|] eqn:Ef.
+  - assert (Eg : get_blk i s1 = set_b_stack (b_stack b ++ [c]) b).
+    { subst s1. unfold get_blk, upd. cbn [blocks set_blocks].
+      assert (F : forall bs b', find_bid (b_id b') bs <> None -> find_bid (b_id b') (upd_blk b' bs) = Some b').
+      { induction bs as [|x r IH]; cbn [find_bid upd_blk]; intros b' H; [contradiction|].
+        destruct (bid_eqb (b_id b') (b_id x)) eqn:E; cbn [find_bid]; [rewrite bid_eqb_refl; reflexivity|].
+        rewrite E. apply IH. exact H. }
+      assert (Eid : b_id (set_b_stack (b_stack b ++ [c]) b) = i) by (bsimp; apply get_blk_id).
+      rewrite <- Eid at 1. rewrite F; [reflexivity|]. rewrite Eid, Ef. discriminate. }
+    rewrite Eg. bsimp. destruct (b_waiters b) as [|w ws] eqn:Ew.
+    + apply W_upd; [exact Hw|]. intros Hne. change (b_waiters b <> []) in Hne. rewrite Ew in Hne. contradiction.
+    + intros x Hx Hne. unfold push, upd in Hx. cbn in Hx.
+      apply In_upd_blk in Hx as [->|Hx].
+      * bsimp. replace (b_id b) with i by (symmetry; apply get_blk_id). rewrite nwok_push_wake.
+        assert (P : Pw s b) by (apply Pw_get; exact Hw). unfold Pw in P. rewrite Ew in P.
+        specialize (P ltac:(discriminate)). replace (b_id b) with i in P by (symmetry; apply get_blk_id).
+        change (nwok (upd (set_b_waiters ws (set_b_stack (b_stack b ++ [c]) b)) s1) i) with (nwok s i).
+        rewrite zlen_app, zlen_cons, zlen_nil. lia.
+      * apply In_upd_blk in Hx as [->|Hx].
+        -- bsimp. replace (b_id b) with i by (symmetry; apply get_blk_id). rewrite nwok_push_wake.
+           assert (P : Pw s b) by (apply Pw_get; exact Hw). unfold Pw in P. rewrite Ew in P.
+           specialize (P ltac:(discriminate)). replace (b_id b) with i in P by (symmetry; apply get_blk_id).
+           change (nwok (upd (set_b_waiters ws (set_b_stack (b_stack b ++ [c]) b)) s1) i) with (nwok s i).
+           rewrite zlen_app, zlen_cons, zlen_nil. lia.
+        -- specialize (Hw x Hx Hne). unfold nwok in *. cbn. rewrite cnt_app. pose proof (cnt_nonneg (is_wok (b_id x)) [wake_kont i w true]). lia.
+  - (* stale block: nothing happens *)
+    assert (E1 : s1 = set_blocks (blocks s) s).
+    { subst s1. unfold upd. rewrite upd_blk_none; [reflexivity|]. bsimp. subst b. rewrite get_blk_id. exact Ef. }
+    assert (Eg : get_blk i s1 = stale_blk i) by (rewrite E1; unfold get_blk; cbn; rewrite Ef; reflexivity).
+    rewrite Eg. cbn. rewrite E1. apply (W_eq s); auto.
+Qed.
+
+Lemma W_try_steal i s r s' : try_steal i s = (r, s') -> W s -> W s'.
+Proof.
+  unfold try_steal. destruct (b_stack (get_blk i s)) as [|c0 r0] eqn:Es; intros E Hw; inversion E; subst; [exact Hw|].
+  apply (W_upd_le _ i); [exact Hw|bsimp; apply get_blk_id|]. bsimp. intros Hne. split; [exact Hne|]. rewrite Es, zlen_cons. lia.
+Qed.
+Lemma W_perm s bs : Permutation bs s.(blocks) -> W s -> W (set_blocks bs s).
+Proof. intros P Hw. apply W_blocks; [exact Hw|]. intros b Hb. left. eapply Permutation_in; eauto. Qed.
+Lemma W_sched_new_conn i s : W s -> W (sched_new_conn i s).
+Proof.
+  intros Hw. unfold sched_new_conn. apply W_push.
+  assert (W1 : W (set_cur (cur s + 1) (upd (set_b_pending (b_pending (get_blk i s) + 1) (get_blk i s)) s))).
+  { apply (W_eq (upd (set_b_pending (b_pending (get_blk i s) + 1) (get_blk i s)) s)); try reflexivity. w_same i. }
+  match goal with |- W (if ?x then _ else _) => destruct x end; [|exact W1].
+  apply W_perm; [apply move_end_perm|exact W1].
+Qed.
+Lemma W_sched_transfer f c t s : W s -> W (sched_transfer f c t s).
+Proof.
+  intros Hw. unfold sched_transfer. destruct (alookup _ _) as [[|]|].
+  1,3: (apply (W_eq s); try reflexivity; exact Hw).
+  apply W_push.
+  set (s1 := upd (set_b_conns _ _) s). assert (W1 : W s1) by (subst s1; w_same f).
+  set (s2 := upd _ s1). assert (W2 : W s2) by (subst s2; w_same t).
+  match goal with |- W (if ?x then _ else _) => destruct x end; [|exact W2].
+  apply W_perm; [etransitivity; apply move_end_perm|exact W2].
+Qed.
+Lemma W_sched_discard i c p br s : W s -> W (sched_discard i c p br s).
+Proof. intros Hw. apply W_push, Hw. Qed.
+Lemma W_maybe_sched_tick s : W s -> W (maybe_sched_tick s).
+Proof. intros Hw. unfold maybe_sched_tick. destruct (_ && _); [apply (W_eq s); try reflexivity|]; exact Hw. Qed.
+Lemma W_find_most_starving s s' r : find_most_starving s = (s', r) -> W s -> W s'.
+Proof.
+  unfold find_most_starving. destruct (wl_pop _ _) as [wl o]. intros E Hw.
+  destruct o; [|destruct (starve_revive _ _ _)]; inversion E; subst; (apply (W_eq s); try reflexivity; exact Hw).
+Qed.
+Lemma W_maybe_free f c s s' r : maybe_free f c s = (s', r) -> W s -> W s'.
+Proof.
+  unfold maybe_free. destruct (find_most_starving s) as [s1 to] eqn:E. intros E2 Hw.
+  assert (W1 : W s1) by (eapply W_find_most_starving; eauto).
+  destruct to as [j|]; [destruct (bid_eqb j f)|]; inversion E2; subst; try exact W1.
+  apply W_sched_transfer, W1.
+Qed.
+Lemma W_release_unused i c s : W s -> W (release_unused i c s).
+Proof.
+  intros Hw. unfold release_unused.
+  assert (W1 : W (block_release i c s)) by (apply W_block_release, Hw).
+  match goal with |- W (if ?x then _ else _) => destruct x end; (eapply W_eq; [exact W1| |]; reflexivity).
+Qed.
+Lemma W_try_steal_conn o f l : forall s s' r, try_steal_conn o f l s = (s', r) -> W s -> W s'.
+Proof.
+  induction l as [|i l IH]; intros s s' r E Hw; cbn [try_steal_conn] in E.
+  - inversion E; subst; exact Hw.
+  - destruct (bid_eqb i f || negb (should_free o i s)); [eapply IH; eauto|].
+    destruct (try_steal i s) as [[c|] s1] eqn:Es; [|eapply IH; eauto].
+    inversion E; subst. apply W_sched_transfer. eapply W_try_steal; eauto.
+Qed.
+Lemma W_try_shrink o i fuel : forall s, W s -> W (try_shrink o i fuel s).
+Proof.
+  induction fuel as [|f IH]; intros s Hw; cbn [try_shrink]; [exact Hw|].
+  destruct (_ && _); [|exact Hw].
+  destruct (try_steal i s) as [[c|] s1] eqn:Es; [|exact Hw].
+  destruct (find_most_starving s1) as [s2 to] eqn:Ef.
+  apply IH. assert (W2 : W s2) by (eapply W_find_most_starving; [eauto|]; eapply W_try_steal; eauto).
+  destruct to; [apply W_sched_transfer|apply W_sched_discard]; exact W2.
+Qed.
+Lemma W_grow i fuel : forall s, W s -> W (grow i fuel s).
+Proof.
+  induction fuel as [|f IH]; intros s Hw; cbn [grow]; [exact Hw|].
+  destruct (_ && _); [|exact Hw]. apply IH, W_sched_new_conn, Hw.
+Qed.
+Lemma W_set_overq v s : W s -> W (set_overq v s).
+Proof. intros Hw. apply (W_eq s); auto. Qed.
+Lemma W_rebalance_one o i s : W s -> W (rebalance_one o i s).
+Proof.
+  intros Hw. unfold rebalance_one.
+  destruct (_ <? _); [|destruct (_ <? _); [apply W_grow|]; exact Hw].
+  match goal with |- W (if ?x then _ else _) => destruct x end; [apply W_set_overq|]; apply W_try_shrink, Hw.
+Qed.
+Lemma W_rebalance_loop o l : forall s, W s -> W (rebalance_loop o l s).
+Proof. induction l; intros; cbn [rebalance_loop]; [assumption|]. apply IHl, W_rebalance_one; assumption. Qed.
+Lemma W_rebalance o s : W s -> W (rebalance o s).
+Proof.
+  intros Hw. unfold rebalance. destruct (starving s); [exact Hw|].
+  apply W_set_overq, W_rebalance_loop, W_set_overq, Hw.
+Qed.
+Lemma W_finish_acquire t d c s : W s -> W (finish_acquire t d c s).
+Proof.
+  intros Hw. unfold finish_acquire.
+  assert (W1 : W (set_nacq (nacq s - 1) s)) by (apply (W_eq s); auto).
+  destruct (find_db d _) as [b|] eqn:Ed; [|apply (W_eq s); auto].
+  destruct (alookup c (b_conns b)) as [[|]|].
+  1,3: (apply (W_eq s); auto).
+  cbn [blocks set_nacq] in Ed. destruct (find_db_In _ _ _ Ed) as [Hb _].
+  set (b' := set_b_acq _ _).
+  apply (W_eq (upd b' (set_nacq (nacq s - 1) s))); try reflexivity.
+  apply W_upd; [exact W1|]. intros Hne. exact (Hw b Hb Hne).
+Qed.
+
+Lemma W_block_acquire t i f s : W s -> W (block_acquire t i f s).
+Proof.
+  intros Hw. unfold block_acquire. destruct (split_last _) as [[r c]|] eqn:Sl.
+  - apply W_finish_acquire. pose proof (split_last_spec (b_stack (get_blk i s))) as Sp. rewrite Sl in Sp.
+    apply (W_upd_le _ i); [exact Hw|bsimp; apply get_blk_id|]. bsimp. intros Hne. split; [exact Hne|].
+    rewrite Sp, zlen_app. pose proof (zlen_nonneg [c]). lia.
+  - (* the stack is empty: queueing a waiter is fine *)
+    pose proof (split_last_spec (b_stack (get_blk i s))) as Sp. rewrite Sl in Sp.
+    apply W_upd; [exact Hw|]. intros _. bsimp. rewrite Sp. unfold nwok. pose proof (cnt_nonneg (is_wok (b_id (get_blk i s))) (ready s)).
+    rewrite zlen_nil. lia.
+Qed.
+Lemma W_get_block d s i s' : get_block d s = (i, s') -> W s -> W s'.
+Proof.
+  unfold get_block. destruct (find_db d (blocks s)); intros E Hw; inversion E; subst; [exact Hw|].
+  apply (W_eq (set_blocks (if starving s then new_blk (d, next_bid s) :: blocks s else blocks s ++ [new_blk (d, next_bid s)]) s)); try reflexivity.
+  apply W_blocks; [exact Hw|]. intros b Hb.
+  destruct (starving s); [destruct Hb as [<-|Hb]|apply in_app_iff in Hb as [Hb|[<-|[]]]]; auto.
+Qed.
+Ltac wif := match goal with |- W (if ?x then _ else _) => destruct x end.
+Lemma W_acquire_start o t d s : W s -> W (acquire_start o t d s).
+Proof.
+  intros Hw. unfold acquire_start.
+  destruct (get_block d _) as [i s1] eqn:Eg.
+  assert (W1 : W s1).
+  { eapply W_get_block; [eauto|]. apply W_maybe_sched_tick. apply (W_eq s); auto. }
+  set (s2 := upd _ s1). assert (W2 : W s2) by (subst s2; w_same i).
+  wif.
+  - apply W_block_acquire. wif; [wif|wif]; try exact W2; apply W_sched_new_conn; assumption.
+  - wif; [|wif].
+    + destruct (try_steal_conn o i (overq s2) s2) as [s3 ok] eqn:Et.
+      assert (W3 : W s3) by (eapply W_try_steal_conn; eauto).
+      apply W_block_acquire. destruct ok; [|apply (W_eq s3); auto]; exact W3.
+    + destruct (try_steal_conn o i (overq s2) s2) as [s3 ok] eqn:Et.
+      apply W_block_acquire. eapply W_try_steal_conn; eauto.
+    + apply W_block_acquire, W2.
+Qed.
+
+(* the state right after the loop popped a successful wake-up for block i: block i may be one short *)
+Definition Wd (i : bid) (s : pool) : Prop :=
+  forall b, In b s.(blocks) -> b.(b_waiters) <> [] ->
+    zlen b.(b_stack) <= nwok s b.(b_id) + (if bid_eqb b.(b_id) i then 1 else 0).
+Lemma In_upd_blk_nodup b' bs x :
+  NoDup (map b_id bs) -> In x (upd_blk b' bs) -> x = b' \/ (In x bs /\ b_id x <> b_id b').
+Proof.
+  induction bs as [|b r IH]; cbn [upd_blk map]; intros ND Hx; [destruct Hx|]. inversion ND; subst.
+  destruct (bid_eqb (b_id b') (b_id b)) eqn:E.
+  - apply bid_eqb_eq in E. destruct Hx as [<-|Hx]; [left; reflexivity|]. right. split; [right; exact Hx|].
+    intros Ex. apply H1. rewrite <- E, <- Ex. apply in_map. exact Hx.
+  - apply bid_eqb_neq in E. destruct Hx as [<-|Hx]; [right; split; [left; reflexivity|congruence]|].
+    destruct (IH H2 Hx) as [->|[Hin Hne]]; [left; reflexivity|right; split; [right; exact Hin|exact Hne]].
+Qed.
+Lemma Wd_fix i s b' :
+  NoDup (map b_id s.(blocks)) -> Wd i s -> b'.(b_id) = i -> Pw s b' -> W (upd b' s).
+Proof.
+  intros ND Hd E P b Hb Hne. unfold upd in Hb. cbn in Hb.
+  apply In_upd_blk_nodup in Hb as [->|[Hb Hn]]; [exact (P Hne)| |exact ND].
+  specialize (Hd b Hb Hne).
+  assert (Eb : bid_eqb (b_id b) i = false) by (apply bid_eqb_neq; congruence).
+  rewrite Eb in Hd. unfold nwok in *. cbn. lia.
+Qed.
+(* if block i turns out to have an empty stack (or does not exist) the deficit is void *)
+Lemma Wd_W_empty i s : NoDup (map b_id s.(blocks)) -> Wd i s -> (get_blk i s).(b_stack) = [] -> W s.
+Proof.
+  intros ND Hd Es b Hb Hne. specialize (Hd b Hb Hne).
+  destruct (bid_eqb (b_id b) i) eqn:Eb; [|lia].
+  apply bid_eqb_eq in Eb. pose proof (find_bid_unique _ _ ND Hb) as Ef. rewrite Eb in Ef.
+  rewrite (get_blk_live _ _ _ Ef) in Es. rewrite Es, zlen_nil. unfold nwok. apply cnt_nonneg.
+Qed.
+
+Lemma W_acquire_wake_ok t i s : NoDup (map b_id s.(blocks)) -> Wd i s -> W (acquire_wake t i true s).
+Proof.
+  intros ND Hd. unfold acquire_wake.
+  pose proof (split_last_spec (b_stack (get_blk i s))) as Sp.
+  destruct (split_last _) as [[r c]|] eqn:Sl.
+  - apply W_finish_acquire. apply (Wd_fix i); [exact ND|exact Hd|bsimp; apply get_blk_id|].
+    intros Hne. cbn [b_waiters set_b_nwait set_b_stack] in Hne. bsimp.
+    destruct (find_bid i (blocks s)) as [b|] eqn:Ef.
+    + rewrite (get_blk_live _ _ _ Ef) in *. specialize (Hd b (find_bid_In _ _ _ Ef) Hne).
+      rewrite (find_bid_id _ _ _ Ef), bid_eqb_refl in Hd. rewrite Sp, zlen_app, zlen_cons, zlen_nil in Hd.
+      rewrite (find_bid_id _ _ _ Ef). lia.
+    + rewrite (get_blk_stale _ _ Ef) in Sp. cbn in Sp. destruct r; discriminate.
+  - assert (W0 : W s) by (eapply Wd_W_empty; eauto).
+    apply W_block_acquire. w_same i.
+Qed.
+Lemma W_acquire_wake_fail t i s : W s -> W (acquire_wake t i false s).
+Proof.
+  intros Hw. unfold acquire_wake.
+  set (s2 := match b_stack (get_blk i s) with [] => s | _ :: _ => wakeup_next i s end).
+  assert (W2 : W s2) by (subst s2; destruct (b_stack _); [exact Hw|apply W_wakeup_next, Hw]).
+  apply (W_eq (upd (set_b_nwait (b_nwait (get_blk i s2) - 1) (get_blk i s2)) s2)); try reflexivity. w_same i.
+Qed.
+
+Lemma W_connect_wake i res nodb s : W s -> W (connect_wake i res nodb s).
+Proof.
+  intros Hw. unfold connect_wake. destruct res as [c|].
+  - apply W_block_release. w_same i.
+  - set (s1 := set_cur (cur s - 1) s). assert (W1 : W s1) by (apply (W_eq s); auto).
+    set (s2 := upd _ s1). assert (W2 : W s2) by (subst s2; w_same i).
+    match goal with |- W (upd _ (if ?x then ?a else ?b)) => set (s3 := if x then a else b) end.
+    assert (W3 : W s3) by (subst s3; wif; [apply W_abort_waiters|apply W_sched_new_conn]; exact W2).
+    w_same i.
+Qed.
+Lemma W_prune_cont t i acc s : W s -> W (prune_cont t i acc s).
+Proof.
+  intros Hw. unfold prune_cont. destruct (_ && _).
+  - apply W_upd; [exact Hw|]. intros _. bsimp. rewrite zlen_nil. unfold nwok. apply cnt_nonneg.
+  - destruct acc as [|a acc']; [apply (W_eq s); auto|].
+    apply (W_eq (set_ready (ready s ++ map (fun c => KDiscStart i c (Some t) false) (a :: acc')) s)); try reflexivity.
+    apply W_append, Hw.
+Qed.
+Lemma W_prune_start t d s : W s -> W (prune_start t d s).
+Proof.
+  intros Hw. unfold prune_start. destruct (find_db _ _) as [b|]; [|apply (W_eq s); auto].
+  apply W_prune_cont, W_upd; [exact Hw|]. intros _. bsimp. rewrite zlen_nil. unfold nwok. apply cnt_nonneg.
+Qed.
+Lemma W_prune_wake_ok t i acc s : NoDup (map b_id s.(blocks)) -> Wd i s -> W (prune_wake t i acc true s).
+Proof.
+  intros ND Hd. unfold prune_wake.
+  pose proof (split_last_spec (b_stack (get_blk i s))) as Sp.
+  destruct (split_last _) as [[r c]|] eqn:Sl.
+  - apply W_prune_cont. apply (Wd_fix i); [exact ND|exact Hd|bsimp; apply get_blk_id|].
+    intros Hne. cbn [b_waiters set_b_nwait set_b_stack] in Hne. bsimp.
+    destruct (find_bid i (blocks s)) as [b|] eqn:Ef.
+    + rewrite (get_blk_live _ _ _ Ef) in *. specialize (Hd b (find_bid_In _ _ _ Ef) Hne).
+      rewrite (find_bid_id _ _ _ Ef), bid_eqb_refl in Hd. rewrite Sp, zlen_app, zlen_cons, zlen_nil in Hd.
+      rewrite (find_bid_id _ _ _ Ef). lia.
+    + rewrite (get_blk_stale _ _ Ef) in Sp. cbn in Sp. destruct r; discriminate.
+  - assert (W0 : W s) by (eapply Wd_W_empty; eauto).
+    apply W_prune_cont. w_same i.
+Qed.
+Lemma W_prune_wake_fail t i acc s : W s -> W (prune_wake t i acc false s).
+Proof.
+  intros Hw. unfold prune_wake.
+  set (s2 := match b_stack (get_blk i s) with [] => s | _ :: _ => wakeup_next i s end).
+  assert (W2 : W s2) by (subst s2; destruct (b_stack _); [exact Hw|apply W_wakeup_next, Hw]).
+  apply (W_eq (upd (set_b_nwait (b_nwait (get_blk i s2) - 1) (get_blk i s2)) s2)); try reflexivity. w_same i.
+Qed.
+Lemma W_gather_cb t s : W s -> W (gather_cb t s).
+Proof.
+  intros Hw. unfold gather_cb. destruct (alookup _ _); [|exact Hw].
+  destruct (_ <=? _); [apply W_push|]; (apply (W_eq s); auto).
+Qed.
+Lemma W_tick_scan o ids : forall s tot need drop s' a b c,
+  tick_scan o ids s tot need drop = (s', a, b, c) -> W s -> W s'.
+Proof.
+  induction ids as [|i r IH]; intros s tot need drop s' a b c E Hw; cbn [tick_scan] in E.
+  - inversion E; subst; exact Hw.
+  - destruct (_ && _); [|destruct (_ =? _)]; eapply IH; eauto; w_same i.
+Qed.
+Lemma W_drop_all ids : forall s s' r, drop_all ids s = (s', r) -> W s -> W s'.
+Proof.
+  induction ids as [|i r IH]; intros s s' r0 E Hw; cbn [drop_all] in E.
+  - inversion E; subst; exact Hw.
+  - destruct (_ || _); [inversion E; subst; exact Hw|]. eapply IH; eauto.
+    apply W_blocks; [exact Hw|]. intros b Hb. left. eapply In_remove_bid; eauto.
+Qed.
+Lemma W_modeD_quota o ids : forall s, W s -> W (modeD_quota o ids s).
+Proof.
+  induction ids as [|i r IH]; intros s Hw; cbn [modeD_quota]; [exact Hw|]. apply IH.
+  assert (Q : forall q, W (upd (set_b_quota q (get_blk i s)) s)) by (intros q; w_same i).
+  assert (M : forall q, W (set_blocks (move_end i (upd_blk (set_b_quota q (get_blk i s)) (blocks s))) s)).
+  { intros q. exact (W_perm (upd (set_b_quota q (get_blk i s)) s) _ (move_end_perm i _) (Q q)). }
+  destruct (_ =? 1); [destruct (mem_n _ _)|destruct (_ <? _)]; auto.
+Qed.
+Lemma W_free_loop o i fuel : forall s s' r, free_loop o i fuel s = (s', r) -> W s -> W s'.
+Proof.
+  induction fuel as [|f IH]; intros s s' r E Hw; cbn [free_loop] in E.
+  - inversion E; subst; exact Hw.
+  - destruct (should_free o i s); [|inversion E; subst; exact Hw].
+    destruct (try_steal i s) as [[c|] s1] eqn:Es; [|inversion E; subst; exact Hw].
+    destruct (maybe_free i c s1) as [s2 ok] eqn:Em.
+    assert (W2 : W s2) by (eapply W_maybe_free; [eauto|]; eapply W_try_steal; eauto).
+    destruct ok; [eapply IH; eauto|]. inversion E; subst. apply W_release_unused, W2.
+Qed.
+Lemma W_modeD_free o ids : forall s, W s -> W (modeD_free o ids s).
+Proof.
+  induction ids as [|i r IH]; intros s Hw; cbn [modeD_free]; [exact Hw|].
+  destruct (free_loop _ _ _ _) as [s1 stop] eqn:Ef.
+  assert (W1 : W s1) by (eapply W_free_loop; eauto).
+  destruct stop; [exact W1|apply IH, W1].
+Qed.
+Lemma W_set_quotas cq : forall s, W s -> W (set_quotas cq s).
+Proof.
+  induction cq as [|[d q] r IH]; intros s Hw; cbn [set_quotas]; [exact Hw|]. apply IH.
+  destruct (find_db _ _) as [b|] eqn:Ed; [|exact Hw]. destruct (find_db_In _ _ _ Ed) as [Hb _].
+  apply W_upd; [exact Hw|]. intros Hne. exact (Hw b Hb Hne).
+Qed.
+Lemma W_tick o s : W s -> W (tick o s).
+Proof.
+  intros Hw. unfold tick.
+  assert (W0 : W (maybe_sched_tick (set_tick_armed false s))) by (apply W_maybe_sched_tick; apply (W_eq s); auto).
+  destruct (blocks _) as [|b [|b2 bs]] eqn:Eb.
+  - apply (W_eq (maybe_sched_tick (set_tick_armed false s))); auto.
+  - apply W_upd; [apply (W_eq (maybe_sched_tick (set_tick_armed false s))); auto|].
+    intros Hne. apply (W0 b); [rewrite Eb; left; reflexivity|exact Hne].
+  - destruct (tick_scan _ _ _ _ _ _) as [[[s1 tot] need] drop] eqn:Et.
+    assert (W1 : W s1) by (eapply W_tick_scan; eauto).
+    destruct (drop_all _ _) as [s3 crashed] eqn:Ed.
+    assert (W3 : W s3) by (eapply W_drop_all; [eauto|]; apply (W_eq s1); auto).
+    destruct crashed; [apply (W_eq s3); auto|].
+    wif; [exact W3|]. wif.
+    { wif; [apply W_rebalance|]; exact W3. }
+    wif.
+    + wif; [apply W_modeD_free|]; apply W_modeD_quota, W3.
+    + wif; [apply (W_eq (set_quotas (o_cq o) s3)); auto|apply W_rebalance]; apply W_set_quotas, W3.
+Qed.
+Lemma W_gc_block i n : forall s, W s -> W (gc_block i n s).
+Proof.
+  induction n as [|m IH]; intros s Hw; cbn [gc_block]; [exact Hw|].
+  destruct (try_steal i s) as [[c|] s1] eqn:Es; [|exact Hw].
+  apply IH, W_sched_discard. eapply W_try_steal; eauto.
+Qed.
+Lemma W_gc_all o ids : forall s, W s -> W (gc_all o ids s).
+Proof. induction ids; intros; cbn [gc_all]; [assumption|]. apply IHids, W_gc_block; assumption. Qed.
+Lemma W_run_gc o s : W s -> W (run_gc o s).
+Proof.
+  intros Hw. unfold run_gc.
+  destruct (starving _); [apply (W_eq s); auto|].
+  apply W_gc_all. destruct (_ <? _); (apply (W_eq s); auto).
+Qed.
+Lemma W_release o d c discard s : W s -> W (release o d c discard s).
+Proof.
+  intros Hw. unfold release.
+  destruct (find_db d _) as [b|] eqn:Ed; [|apply (W_eq s); auto].
+  destruct (alookup c (b_conns b)) as [[|]|].
+  2,3: (apply (W_eq s); auto).
+  destruct (find_db_In _ _ _ Ed) as [Hb _].
+  set (s1 := maybe_sched_tick _).
+  assert (W1 : W s1).
+  { subst s1. apply W_maybe_sched_tick.
+    set (b' := set_b_acq _ _). apply (W_eq (upd b' s)); try reflexivity.
+    apply W_upd; [exact Hw|]. intros Hne. exact (Hw b Hb Hne). }
+  destruct (if should_free o (b_id b) s1 then maybe_free (b_id b) c s1 else (s1, false)) as [s2 moved] eqn:Em.
+  assert (W2 : W s2).
+  { destruct (should_free o (b_id b) s1); [eapply W_maybe_free; eauto|inversion Em; subst; exact W1]. }
+  destruct moved; [exact W2|].
+  destruct discard; [apply W_sched_new_conn, W_sched_discard|apply W_release_unused]; exact W2.
+Qed.
+
+Lemma step_W s e o s' : OwnI s -> W s -> step s e o = Some s' -> W s'.
+Proof.
+  intros O Hw St.
+  assert (W0 : W (set_outs [] s)) by (apply (W_eq s); auto).
+  destruct e; cbn [step] in St.
+  - destruct (_ =? _)%N; inversion St; subst. apply W_push. apply (W_eq s); auto.
+  - destruct (_ =? _)%N; inversion St; subst. apply W_push. apply (W_eq s); auto.
+  - inversion St; subst. apply W_release, W0.
+  - destruct (alookup cid _); inversion St; subst. apply W_push. apply (W_eq s); auto.
+  - destruct (alookup cid _); inversion St; subst. apply W_push. apply (W_eq s); auto.
+  - destruct (alookup did _) as [[c a]|]; inversion St; subst. apply W_push. apply (W_eq s); auto.
+  - destruct (alookup did _) as [[c a]|]; inversion St; subst. apply W_push. apply (W_eq s); auto.
+  - destruct (tick_armed _); inversion St; subst. apply W_tick, W0.
+  - destruct (_ <? _); inversion St; subst. apply W_run_gc, W0.
+  - cbn in St. destruct (ready s) as [|k r] eqn:Er; inversion St; subst; clear St.
+    set (s0 := set_ready r (set_outs [] s)).
+    assert (ND : NoDup (map b_id (blocks s0))) by exact (own_ids _ _ _ _ O).
+    (* popping k removes at most one successful wake-up, and only for the block k names *)
+    assert (Hd : forall i, (forall j, is_wok j k = true -> j = i) -> Wd i s0).
+    { intros i Hk b Hb Hne. specialize (Hw b Hb Hne). unfold nwok in *. rewrite Er, cnt_cons in Hw.
+      change (ready s0) with r.
+      destruct (is_wok (b_id b) k) eqn:Ek; cbn [b2z] in Hw.
+      - pose proof (Hk _ Ek) as E. rewrite E in *. rewrite bid_eqb_refl. lia.
+      - destruct (bid_eqb (b_id b) i); lia. }
+    assert (Wp : (forall j, is_wok j k = false) -> W s0).
+    { intros Hk b Hb Hne. specialize (Hw b Hb Hne). unfold nwok in *. rewrite Er, cnt_cons, Hk in Hw. cbn [b2z] in Hw.
+      change (ready s0) with r. lia. }
+    destruct k as [t d|t i ok|i|cid i res nodb|f c to|i c p br|did c a ok|t d|t i acc ok|t|t]; cbn [run_kont].
+    + apply W_acquire_start, Wp; intros; reflexivity.
+    + destruct ok.
+      * apply W_acquire_wake_ok; [exact ND|]. apply Hd. intros j Hj. cbn in Hj. apply bid_eqb_eq in Hj. exact Hj.
+      * apply W_acquire_wake_fail, Wp; intros; reflexivity.
+    + unfold call_connect, emit. apply (W_eq s0); auto; apply Wp; intros; reflexivity.
+    + apply W_connect_wake, Wp; intros; reflexivity.
+    + unfold call_disconnect, emit. apply (W_eq s0); auto; apply Wp; intros; reflexivity.
+    + unfold discard_start. destruct (alookup c _) as [[|]|].
+      1,3: (apply (W_eq s0); auto; apply Wp; intros; reflexivity).
+      unfold call_disconnect, emit.
+      apply (W_eq (upd (set_b_conns (aremove c (b_conns (get_blk i s0))) (get_blk i s0)) s0)); try reflexivity.
+      assert (Wq : W s0) by (apply Wp; intros; reflexivity). w_same i.
+    + unfold disconnect_wake. destruct a as [to|[t|] br].
+      * unfold call_connect, emit. apply (W_eq s0); auto; apply Wp; intros; reflexivity.
+      * apply W_push. apply (W_eq s0); auto; apply Wp; intros; reflexivity.
+      * apply (W_eq s0); auto; apply Wp; intros; reflexivity.
+    + apply W_prune_start, Wp; intros; reflexivity.
+    + destruct ok.
+      * apply W_prune_wake_ok; [exact ND|]. apply Hd. intros j Hj. cbn in Hj. apply bid_eqb_eq in Hj. exact Hj.
+      * apply W_prune_wake_fail, Wp; intros; reflexivity.
+    + apply W_gather_cb, Wp; intros; reflexivity.
+    + apply (W_eq s0); auto; apply Wp; intros; reflexivity.
+Qed.
+
+Lemma reach_W mx s : 0 <= mx -> reach mx s -> W s.
+Proof.
+  intros Hm R. induction R as [|s e o s' R IH St]; [intros b []|].
+  destruct (reach_Inv _ _ Hm R) as (_ & O & _). eapply step_W; eauto.
+Qed.
+
+(* ---- C16: no lost wake-up *)
+Lemma p_no_lost_wakeup mx s b : 0 <= mx -> reach mx s -> In b s.(blocks) -> b.(b_waiters) <> [] ->
+  zlen b.(b_stack) <= nwok s b.(b_id).
+Proof. intros Hm R Hb Hne. exact (reach_W _ _ Hm R b Hb Hne). Qed.
+Lemma p_quiescent_no_idle_with_waiters mx s b : 0 <= mx -> reach mx s -> In b s.(blocks) -> s.(ready) = [] ->
+  b.(b_waiters) = [] \/ b.(b_stack) = [].
+Proof.
+  intros Hm R Hb E. destruct (b_waiters b) as [|w ws] eqn:Ew; [left; reflexivity|right].
+  pose proof (p_no_lost_wakeup _ _ b Hm R Hb) as P. rewrite Ew in P. specialize (P ltac:(discriminate)).
+  unfold nwok in P. rewrite E, cnt_nil in P. destruct (b_stack b); [reflexivity|rewrite zlen_cons in P; pose proof (zlen_nonneg l); lia].
+Qed.
+
+(* ---- C16: a failed connect is retried exactly once or reported to every waiter of the block *)
+Lemma find_bid_upd_same i bs b b' : find_bid i bs = Some b -> b'.(b_id) = i -> find_bid i (upd_blk b' bs) = Some b'.
+Proof.
+  induction bs as [|x r IH]; cbn [find_bid upd_blk]; [discriminate|]. intros H E.
+  destruct (bid_eqb i (b_id x)) eqn:E1.
+  - rewrite E, E1. cbn [find_bid]. rewrite E, bid_eqb_refl. reflexivity.
+  - rewrite E, E1. cbn [find_bid]. rewrite E1. apply IH; assumption.
+Qed.
+Lemma find_bid_perm i l1 l2 : Permutation l1 l2 -> NoDup (map b_id l1) -> find_bid i l2 = find_bid i l1.
+Proof.
+  intros P ND. assert (ND2 : NoDup (map b_id l2)) by (eapply Permutation_NoDup; [apply Permutation_map; exact P|exact ND]).
+  destruct (find_bid i l1) as [b|] eqn:E1.
+  - rewrite <- (find_bid_id _ _ _ E1). apply find_bid_unique; [exact ND2|].
+    eapply Permutation_in; [exact P|eapply find_bid_In; eauto].
+  - destruct (find_bid i l2) as [b|] eqn:E2; [|reflexivity]. exfalso.
+    apply (find_bid_none _ _ E1 b); [eapply Permutation_in; [symmetry; exact P|eapply find_bid_In; eauto]|eapply find_bid_id; eauto].
+Qed.
+
+Lemma p_retry_or_abort s i b nodb :
+  NoDup (map b_id s.(blocks)) -> find_bid i s.(blocks) = Some b ->
+  let f2 := if nodb && (b.(b_fails) + 1 <=? RETRIES) then RETRIES + 1 else b.(b_fails) + 1 in
+  let s' := connect_wake i None nodb s in
+  (nodb = true -> RETRIES < f2) /\
+  (f2 <= RETRIES ->
+     s'.(ready) = s.(ready) ++ [KConnStart i] /\ s'.(cur) = s.(cur) /\
+     exists b', find_bid i s'.(blocks) = Some b' /\ b'.(b_waiters) = b.(b_waiters) /\ b'.(b_pending) = b.(b_pending)) /\
+  (RETRIES < f2 ->
+     s'.(ready) = s.(ready) ++ map (fun w => wake_kont i w false) b.(b_waiters) /\ s'.(cur) = s.(cur) - 1 /\
+     exists b', find_bid i s'.(blocks) = Some b' /\ b'.(b_waiters) = [] /\ b'.(b_pending) = b.(b_pending) - 1).
+Proof.
+  intros ND Ef f2 s'. subst s'. unfold connect_wake.
+  set (s1 := set_cur (cur s - 1) s).
+  assert (G1 : get_blk i s1 = b) by (unfold get_blk; cbn; rewrite Ef; reflexivity).
+  rewrite G1. fold f2.
+  set (b2 := set_b_fails f2 b). set (s2 := upd b2 s1).
+  assert (Eb : b_id b = i) by (eapply find_bid_id; eauto).
+  assert (F2 : find_bid i (blocks s2) = Some b2) by (apply (find_bid_upd_same i _ b); [exact Ef|exact Eb]).
+  assert (ND2 : NoDup (map b_id (blocks s2))) by (unfold s2, upd; cbn; rewrite map_id_upd; exact ND).
+  split; [|split].
+  - intros ->. subst f2. cbn [andb]. destruct (b_fails b + 1 <=? RETRIES) eqn:E; [unfold RETRIES; lia|apply Z.leb_gt in E; lia].
+  - intros Hle. assert (E : (RETRIES <? f2) = false) by (apply Z.ltb_ge; exact Hle). rewrite E.
+    assert (G2 : get_blk i s2 = b2) by (unfold get_blk; rewrite F2; reflexivity).
+    unfold sched_new_conn. rewrite G2.
+    set (b3 := set_b_pending (b_pending b2 + 1) b2). set (s3 := set_cur _ (upd b3 s2)).
+    assert (F3 : find_bid i (blocks s3) = Some b3) by (apply (find_bid_upd_same i _ b2); [exact F2|exact Eb]).
+    assert (ND3 : NoDup (map b_id (blocks s3))) by (unfold s3, upd; cbn; rewrite map_id_upd; exact ND2).
+    set (s4 := if starving s3 then _ else s3).
+    assert (F4 : find_bid i (blocks s4) = Some b3).
+    { subst s4. destruct (starving s3); [|exact F3]. cbn [blocks set_blocks].
+      rewrite (find_bid_perm i (blocks s3) _ (Permutation_sym (move_end_perm i _)) ND3). exact F3. }
+    assert (G4 : get_blk i (push (KConnStart i) s4) = b3) by (unfold get_blk; cbn; rewrite F4; reflexivity).
+    rewrite G4. repeat split.
+    + subst s4. destruct (starving s3); reflexivity.
+    + subst s4. destruct (starving s3); cbn; lia.
+    + exists (set_b_pending (b_pending b3 - 1) b3). repeat split; [|cbn; lia].
+      unfold upd. cbn [blocks set_blocks push set_ready]. apply (find_bid_upd_same i _ b3); [exact F4|exact Eb].
+  - intros Hgt. assert (E : (RETRIES <? f2) = true) by (apply Z.ltb_lt; exact Hgt). rewrite E.
+    assert (G2 : get_blk i s2 = b2) by (unfold get_blk; rewrite F2; reflexivity).
+    unfold abort_waiters. rewrite G2.
+    set (b3 := set_b_waiters [] b2). set (s3 := set_ready _ (upd b3 s2)).
+    assert (F3 : find_bid i (blocks s3) = Some b3) by (apply (find_bid_upd_same i _ b2); [exact F2|exact Eb]).
+    assert (G3 : get_blk i s3 = b3) by (unfold get_blk; rewrite F3; reflexivity).
+    rewrite G3. repeat split.
+    exists (set_b_pending (b_pending b3 - 1) b3). repeat split.
+    unfold upd. cbn [blocks set_blocks]. apply (find_bid_upd_same i _ b3); [exact F3|exact Eb].
 Qed.
